@@ -2,6 +2,7 @@ import InfluxQL.Model.ParserStmt
 import InfluxQL.Model.PrintStmt
 import InfluxQL.Lemmas.Digits
 import InfluxQL.Lemmas.ParserTok
+import InfluxQL.Lemmas.StmtPieces
 import InfluxQL.Lemmas.IntLit
 import InfluxQL.Lemmas.RegexRoundTrip
 import InfluxQL.Lemmas.NumberRoundTrip
@@ -19,7 +20,10 @@ is *not yet proved* (see notes/C02.md); it is tied to the implementation by the 
 `print.stmt` (exact equality of `String()` with the model's printer on every parsed statement) and
 by the double round trip run on the implementation. Proved here, for all values: the lexical core
 of the round trip — what the printers write for integers, unsigned integers, durations and
-regular expressions is read back as the same value by the literal parsers of the model.
+regular expressions is read back as the same value by the literal parsers of the model — and the
+round trip at text level for the administrative statement families (everything without
+expressions, source lists and SELECT; see "statement families at text level" below and
+`Lemmas/StmtPieces.lean`), including the dispatch on the printed keywords.
 -/
 namespace InfluxQL.C02
 open InfluxQL Gen
@@ -233,6 +237,1435 @@ example : ∃ s', (runHandler 10 .parseGrantsForUserStatement).run
     (by simp [singleNameHandlers]) (PState.init " cpu;".toList [] []) "cpu".toList ';' [eofRune]
     rfl (by decide) (by decide) (by decide) (by decide) (by decide) (by decide)
   exact ⟨s', h⟩
+
+/-! ## statement families at text level
+
+From here on the theorems have one shape. The parser state `s` has nothing pushed back and its
+rune reader stands before the text the printer writes *after the dispatch keywords* of the
+statement, followed by an arbitrary continuation `k` (`s.Before (… ++ k)`, runes as the reader
+delivers them; `k` ends with the NUL sentinel of the input). The handler the dispatch selects
+returns exactly the printed statement and leaves the parser before `k`.
+
+Hypotheses that recur:
+* `Expressible name` — no NUL, no CR: true of every name and string the parser can produce
+  (the scanner ends a literal at NUL and the reader folds CR);
+* `IdentEnd name k`, `WordEnd k`, `NumEnd k`, `DurEnd k` — the continuation does not *continue*
+  the last printed token (a name printed bare, a keyword, digits, a duration); the end of the
+  input and `;` always qualify. They restrict the context, not the statement.
+The printed text is given in pieces (`Token.str` is the upper-case spelling of a keyword);
+the `…_print` theorems state that this is what `String()` writes. -/
+
+/-! ### statements without arguments -/
+
+/-- The handlers that read nothing. -/
+def zeroArgHandlers : List (Handler × Statement) :=
+  [(.parseShowContinuousQueriesStatement, .showContinuousQueries), (.parseShowDatabasesStatement, .showDatabases),
+   (.parseShowQueriesStatement, .showQueries), (.parseShowShardGroupsStatement, .showShardGroups),
+   (.parseShowShardsStatement, .showShards), (.parseShowSubscriptionsStatement, .showSubscriptions),
+   (.parseShowUsersStatement, .showUsers)]
+
+/-- These statements print as their keywords only. -/
+theorem zeroArg_print :
+    zeroArgHandlers.map (fun p => p.2.print) =
+      [tx "SHOW CONTINUOUS QUERIES", tx "SHOW DATABASES", tx "SHOW QUERIES", tx "SHOW SHARD GROUPS", tx "SHOW SHARDS",
+       tx "SHOW SUBSCRIPTIONS", tx "SHOW USERS"] := rfl
+
+/-- **Print → parse, statements without arguments**: the handler returns the statement and reads
+nothing, in every state. -/
+theorem zeroArg_print_parse (fuel : Nat) (h : Handler) (st : Statement) (hh : (h, st) ∈ zeroArgHandlers)
+    (s : PState) : (runHandler fuel h).run s = .ok (st, s) := by
+  simp only [zeroArgHandlers, List.mem_cons, Prod.mk.injEq, List.not_mem_nil, or_false] at hh
+  rcases hh with ⟨rfl, rfl⟩ | ⟨rfl, rfl⟩ | ⟨rfl, rfl⟩ | ⟨rfl, rfl⟩ | ⟨rfl, rfl⟩ | ⟨rfl, rfl⟩ | ⟨rfl, rfl⟩ <;> rfl
+
+/-! ### `<name> ON <db>`: DROP RETENTION POLICY, DROP CONTINUOUS QUERY -/
+
+theorem tx_on : tx " ON " = ' ' :: (Token.ON.str ++ [' ']) := by decide +kernel
+
+/-- What is printed after the keywords. -/
+def nameOnDbText (name db : Str) : Str := ' ' :: (qi name ++ ' ' :: (Token.ON.str ++ ' ' :: qi db))
+
+theorem nameOnDb_print (name db : Str) :
+    (Statement.dropRetentionPolicy name db).print = tx "DROP RETENTION POLICY" ++ nameOnDbText name db ∧
+    (Statement.dropContinuousQuery name db).print = tx "DROP CONTINUOUS QUERY" ++ nameOnDbText name db := by
+  have e1 : tx "DROP RETENTION POLICY " = tx "DROP RETENTION POLICY" ++ [' '] := by decide +kernel
+  have e2 : tx "DROP CONTINUOUS QUERY " = tx "DROP CONTINUOUS QUERY" ++ [' '] := by decide +kernel
+  have p1 : (Statement.dropRetentionPolicy name db).print =
+      tx "DROP RETENTION POLICY " ++ qi name ++ tx " ON " ++ qi db := rfl
+  have p2 : (Statement.dropContinuousQuery name db).print =
+      tx "DROP CONTINUOUS QUERY " ++ qi name ++ tx " ON " ++ qi db := rfl
+  rw [p1, p2, e1, e2, tx_on]
+  simp only [nameOnDbText, List.append_assoc, List.cons_append, List.nil_append, and_self]
+
+/-- `parseNameOnDb` on the printed form. -/
+theorem parseNameOnDb_print (s : PState) (name db k : Str) (hex1 : Expressible name) (hex2 : Expressible db)
+    (hk : IdentEnd db k) (hs : s.Before (nameOnDbText name db ++ k)) :
+    ∃ s', parseNameOnDb.run s = .ok ((name, db), s') ∧ s'.Before k := by
+  have e : nameOnDbText name db ++ k = ' ' :: (qi name ++ ' ' :: (Token.ON.str ++ ' ' :: (qi db ++ k))) := by
+    simp only [nameOnDbText, List.append_assoc, List.cons_append]
+  rw [e] at hs
+  obtain ⟨s1, h1, b1⟩ := parseIdent_piece s [' '] (qi name) _ name Gap.blank hs.around
+    (scansAs_ident name _ hex1 (.of_wordEnd (WordEnd.blank _)))
+  obtain ⟨s2, h2, b2⟩ := expectTok_piece s1 [' '] Token.ON.str _ .ON [] ["ON"] Gap.blank b1.around
+    (scansAs_kw .ON _ (by decide +kernel) (WordEnd.blank _))
+  obtain ⟨s3, h3, b3⟩ := parseIdent_piece s2 [' '] (qi db) k db Gap.blank b2.around (scansAs_ident db k hex2 hk)
+  refine ⟨s3, ?_, b3⟩
+  unfold parseNameOnDb
+  rw [P.run_bind _ _ s name s1 h1, P.run_bind _ _ s1 () s2 h2, P.run_bind _ _ s2 db s3 h3]
+  rfl
+
+/-- The two handlers of this family. -/
+def nameOnDbHandlers : List (Handler × (Str → Str → Statement)) :=
+  [(.parseDropRetentionPolicyStatement, .dropRetentionPolicy), (.parseDropContinuousQueryStatement, .dropContinuousQuery)]
+
+/-- **Print → parse, DROP RETENTION POLICY / DROP CONTINUOUS QUERY.** -/
+theorem nameOnDb_print_parse (fuel : Nat) (h : Handler) (C : Str → Str → Statement) (hh : (h, C) ∈ nameOnDbHandlers)
+    (s : PState) (name db k : Str) (hex1 : Expressible name) (hex2 : Expressible db)
+    (hk : IdentEnd db k) (hs : s.Before (nameOnDbText name db ++ k)) :
+    ∃ s', (runHandler fuel h).run s = .ok (C name db, s') ∧ s'.Before k := by
+  obtain ⟨s', hrun, hb⟩ := parseNameOnDb_print s name db k hex1 hex2 hk hs
+  refine ⟨s', ?_, hb⟩
+  simp only [nameOnDbHandlers, List.mem_cons, Prod.mk.injEq, List.not_mem_nil, or_false] at hh
+  rcases hh with ⟨rfl, rfl⟩ | ⟨rfl, rfl⟩ <;>
+    (simp only [runHandler]; rw [P.run_bind _ _ s (name, db) s' hrun]; rfl)
+
+/-- Non-vacuity: `DROP RETENTION POLICY "1h.cpu" ON mydb` at the end of the input. -/
+example : ∃ s', (runHandler 10 .parseDropRetentionPolicyStatement).run
+      (PState.init (nameOnDbText "1h.cpu".toList "mydb".toList) [] []) =
+        .ok (.dropRetentionPolicy "1h.cpu".toList "mydb".toList, s') := by
+  obtain ⟨s', h, _⟩ := nameOnDb_print_parse 10 .parseDropRetentionPolicyStatement .dropRetentionPolicy
+    (by simp [nameOnDbHandlers]) (PState.init (nameOnDbText "1h.cpu".toList "mydb".toList) [] []) "1h.cpu".toList
+    "mydb".toList [eofRune] (by decide) (by decide) (.of_wordEnd .eof)
+    (by
+      have := PState.init_before (nameOnDbText "1h.cpu".toList "mydb".toList) [] []
+      rwa [show foldCR (nameOnDbText "1h.cpu".toList "mydb".toList) = nameOnDbText "1h.cpu".toList "mydb".toList from by
+        decide] at this)
+  exact ⟨s', h⟩
+
+/-! ### the optional `ON <db>` clause: SHOW RETENTION POLICIES, KILL QUERY -/
+
+/-- ` ON <db>` when the name is not empty (the printers' test), else nothing. -/
+def onText (db : Str) : Str := if db ≠ [] then ' ' :: (Token.ON.str ++ ' ' :: qi db) else []
+
+theorem clauseOn_eq (db : Str) : clauseOn db = onText db := by
+  unfold clauseOn onText
+  split
+  · rw [tx_on]; simp only [List.append_assoc, List.cons_append, List.nil_append]
+  · rfl
+
+/-- The optional `ON` clause on its printed form: present it is consumed; absent (the empty name
+prints nothing) one token is looked at and pushed back. -/
+theorem parseOnDb_print (s : PState) (db k : Str) (hex : Expressible db) (hk : IdentEnd db k)
+    (hs : s.Before (onText db ++ k)) :
+    ∃ sK, sK.Before k ∧ Returns parseOnDb s db sK (db == []) [.ON] := by
+  unfold onText at hs
+  by_cases hdb : db = []
+  · subst hdb
+    refine ⟨s, hs, ?_⟩
+    unfold Returns
+    rw [if_pos (by simp)]
+    intro lx s' hp hne
+    unfold parseOnDb
+    rw [P.run_bind _ _ s false s' (optTok_absent .ON hp (by simpa using hne))]
+    rfl
+  · rw [if_pos hdb] at hs
+    simp only [List.append_assoc, List.cons_append] at hs
+    obtain ⟨s1, h1, b1⟩ := optTok_piece s [' '] Token.ON.str _ .ON [] Gap.blank hs.around
+      (scansAs_kw .ON _ (by decide +kernel) (WordEnd.blank _))
+    obtain ⟨s2, h2, b2⟩ := parseIdent_piece s1 [' '] (qi db) k db Gap.blank b1.around (scansAs_ident db k hex hk)
+    refine ⟨s2, b2, ?_⟩
+    unfold Returns
+    rw [if_neg (by simpa using hdb)]
+    unfold parseOnDb
+    rw [P.run_bind _ _ s true s1 h1]
+    exact h2
+
+theorem showRetentionPolicies_print (db : Str) :
+    (Statement.showRetentionPolicies db).print = tx "SHOW RETENTION POLICIES" ++ onText db := by
+  rw [← clauseOn_eq]; rfl
+
+/-- **Print → parse, SHOW RETENTION POLICIES [ON db]** (the empty name is printed as no clause and
+read back as the empty name). -/
+theorem showRetentionPolicies_print_parse (fuel : Nat) (s : PState) (db k : Str) (hex : Expressible db)
+    (hk : IdentEnd db k) (hs : s.Before (onText db ++ k)) :
+    ∃ sK, sK.Before k ∧
+      Returns (runHandler fuel .parseShowRetentionPoliciesStatement) s (.showRetentionPolicies db) sK (db == []) [.ON] := by
+  obtain ⟨sK, hb, hr⟩ := parseOnDb_print s db k hex hk hs
+  refine ⟨sK, hb, ?_⟩
+  unfold Returns at hr ⊢
+  simp only [runHandler, parseShowRetentionPolicies]
+  split
+  · next hp =>
+    rw [if_pos hp] at hr
+    intro lx s' h1 h2
+    rw [P.run_bind _ _ s db s' (hr lx s' h1 h2)]; rfl
+  · next hp =>
+    rw [if_neg hp] at hr
+    rw [P.run_bind _ _ s db sK hr]; rfl
+
+/-- What KILL QUERY prints after its keywords. -/
+def killQueryText (qid : Nat) (host : Str) : Str := ' ' :: (natDigits qid ++ onText host)
+
+theorem killQuery_print (qid : Nat) (host : Str) :
+    (Statement.killQuery qid host).print = tx "KILL QUERY" ++ killQueryText qid host := by
+  have p1 : (Statement.killQuery qid host).print = tx "KILL QUERY " ++ natDigits qid ++ clauseOn host := rfl
+  have e1 : tx "KILL QUERY " = tx "KILL QUERY" ++ [' '] := by decide +kernel
+  rw [p1, e1, clauseOn_eq]
+  simp only [killQueryText, List.append_assoc, List.cons_append, List.nil_append]
+
+theorem numEnd_onText (host k : Str) (hk : NumEnd k) : NumEnd (onText host ++ k) := by
+  unfold onText
+  split
+  · exact NumEnd.blank _
+  · exact hk
+
+/-- **Print → parse, KILL QUERY n [ON host].** -/
+theorem killQuery_print_parse (fuel : Nat) (s : PState) (qid : Nat) (host k : Str) (hq : (qid : Int) ≤ maxUInt64)
+    (hex : Expressible host) (hk : IdentEnd host k) (hkn : NumEnd k) (hs : s.Before (killQueryText qid host ++ k)) :
+    ∃ sK, sK.Before k ∧
+      Returns (runHandler fuel .parseKillQueryStatement) s (.killQuery qid host) sK (host == []) [.ON] := by
+  have e : killQueryText qid host ++ k = ' ' :: (natDigits qid ++ (onText host ++ k)) := by
+    simp only [killQueryText, List.append_assoc, List.cons_append]
+  rw [e] at hs
+  obtain ⟨s1, h1, b1⟩ := parseUInt64_piece s [' '] (natDigits qid) _ qid hq Gap.blank hs.around
+    (scansAs_nat qid _ (numEnd_onText host k hkn))
+  obtain ⟨sK, hb, hr⟩ := parseOnDb_print s1 host k hex hk b1
+  refine ⟨sK, hb, ?_⟩
+  unfold Returns at hr ⊢
+  simp only [runHandler, parseKillQuery]
+  split
+  · next hp =>
+    rw [if_pos hp] at hr
+    intro lx s' h2 h3
+    rw [P.run_bind _ _ s qid s1 h1, P.run_bind _ _ s1 host s' (hr lx s' h2 h3)]; rfl
+  · next hp =>
+    rw [if_neg hp] at hr
+    rw [P.run_bind _ _ s qid s1 h1, P.run_bind _ _ s1 host sK hr]; rfl
+
+/-! ### DROP SHARD -/
+
+theorem dropShard_print (id : Nat) : (Statement.dropShard id).print = tx "DROP SHARD" ++ ' ' :: natDigits id := by
+  have p1 : (Statement.dropShard id).print = tx "DROP SHARD " ++ natDigits id := rfl
+  have e1 : tx "DROP SHARD " = tx "DROP SHARD" ++ [' '] := by decide +kernel
+  rw [p1, e1]
+  simp only [List.append_assoc, List.cons_append, List.nil_append]
+
+/-- **Print → parse, DROP SHARD n.** -/
+theorem dropShard_print_parse (fuel : Nat) (s : PState) (id : Nat) (k : Str) (hid : (id : Int) ≤ maxUInt64)
+    (hk : NumEnd k) (hs : s.Before (' ' :: natDigits id ++ k)) :
+    ∃ s', (runHandler fuel .parseDropShardStatement).run s = .ok (.dropShard id, s') ∧ s'.Before k := by
+  obtain ⟨s1, h1, b1⟩ := parseUInt64_piece s [' '] (natDigits id) k id hid Gap.blank hs.around (scansAs_nat id k hk)
+  refine ⟨s1, ?_, b1⟩
+  simp only [runHandler]
+  rw [P.run_bind _ _ s id s1 h1]; rfl
+
+/-! ### DROP SUBSCRIPTION -/
+
+/-- What DROP SUBSCRIPTION prints after its keywords: `<name> ON <db>.<rp>`. -/
+def dropSubscriptionText (name db rp : Str) : Str :=
+  ' ' :: (qi name ++ ' ' :: (Token.ON.str ++ ' ' :: (qi db ++ '.' :: qi rp)))
+
+theorem dropSubscription_print (name db rp : Str) :
+    (Statement.dropSubscription name db rp).print = tx "DROP SUBSCRIPTION" ++ dropSubscriptionText name db rp := by
+  have p1 : (Statement.dropSubscription name db rp).print =
+      tx "DROP SUBSCRIPTION " ++ qi name ++ tx " ON " ++ qi db ++ tx "." ++ qi rp := rfl
+  have e1 : tx "DROP SUBSCRIPTION " = tx "DROP SUBSCRIPTION" ++ [' '] := by decide +kernel
+  have e2 : tx "." = ['.'] := by decide +kernel
+  rw [p1, e1, e2, tx_on]
+  simp only [dropSubscriptionText, List.append_assoc, List.cons_append, List.nil_append]
+
+/-- **Print → parse, DROP SUBSCRIPTION name ON db.rp.** -/
+theorem dropSubscription_print_parse (fuel : Nat) (s : PState) (name db rp k : Str) (hex1 : Expressible name)
+    (hex2 : Expressible db) (hex3 : Expressible rp) (hk : IdentEnd rp k)
+    (hs : s.Before (dropSubscriptionText name db rp ++ k)) :
+    ∃ s', (runHandler fuel .parseDropSubscriptionStatement).run s = .ok (.dropSubscription name db rp, s') ∧
+      s'.Before k := by
+  have e : dropSubscriptionText name db rp ++ k =
+      ' ' :: (qi name ++ ' ' :: (Token.ON.str ++ ' ' :: (qi db ++ '.' :: (qi rp ++ k)))) := by
+    simp only [dropSubscriptionText, List.append_assoc, List.cons_append]
+  rw [e] at hs
+  obtain ⟨s1, h1, b1⟩ := parseIdent_piece s [' '] (qi name) _ name Gap.blank hs.around
+    (scansAs_ident name _ hex1 (.of_wordEnd (WordEnd.blank _)))
+  obtain ⟨s2, h2, b2⟩ := expectTok_piece s1 [' '] Token.ON.str _ .ON [] ["ON"] Gap.blank b1.around
+    (scansAs_kw .ON _ (by decide +kernel) (WordEnd.blank _))
+  obtain ⟨s3, h3, b3⟩ := parseIdent_piece s2 [' '] (qi db) _ db Gap.blank b2.around
+    (scansAs_ident db _ hex2 (.of_wordEnd (WordEnd.dot _)))
+  obtain ⟨dot, s4, h4, t4, _, b4⟩ := pscan_piece s3 ['.'] (qi rp ++ k) .DOT [] b3
+    (scansAs_dot _ (quoteIdent_head_not_digit rp k))
+  obtain ⟨s5, h5, b5⟩ := parseIdent_piece s4 [] (qi rp) k rp Gap.none b4.around (scansAs_ident rp k hex3 hk)
+  refine ⟨s5, ?_, b5⟩
+  simp only [runHandler, parseDropSubscription]
+  rw [P.run_bind _ _ s name s1 h1, P.run_bind _ _ s1 () s2 h2, P.run_bind _ _ s2 db s3 h3,
+    P.run_bind _ _ s3 dot s4 h4]
+  simp only [t4, ne_eq, not_true_eq_false, if_false]
+  rw [P.run_bind _ _ s4 rp s5 h5]
+  rfl
+
+/-! ### CREATE USER, SET PASSWORD
+
+The printed form carries `[REDACTED]` in place of the password literal; as the property oracle
+does, the theorems are about the text with `QuoteString(password)` put back in that place. -/
+
+/-- ` WITH ALL PRIVILEGES` for an admin. -/
+def adminText (admin : Bool) : Str :=
+  if admin then ' ' :: (Token.WITH.str ++ ' ' :: (Token.ALL.str ++ ' ' :: Token.PRIVILEGES.str)) else []
+
+/-- What CREATE USER prints after its keywords, with `pwPiece` where the password goes. -/
+def createUserText (name pwPiece : Str) (admin : Bool) : Str :=
+  ' ' :: (qi name ++ ' ' :: (Token.WITH.str ++ ' ' :: (Token.PASSWORD.str ++ ' ' :: (pwPiece ++ adminText admin))))
+
+theorem createUser_print (name pw : Str) (admin : Bool) :
+    (Statement.createUser name pw admin).print = tx "CREATE USER" ++ createUserText name (tx "[REDACTED]") admin := by
+  have p1 : (Statement.createUser name pw admin).print =
+      tx "CREATE USER " ++ qi name ++ tx " WITH PASSWORD [REDACTED]" ++
+        (if admin then tx " WITH ALL PRIVILEGES" else []) := rfl
+  have e1 : tx "CREATE USER " = tx "CREATE USER" ++ [' '] := by decide +kernel
+  have e2 : tx " WITH PASSWORD [REDACTED]" =
+      ' ' :: (Token.WITH.str ++ ' ' :: (Token.PASSWORD.str ++ ' ' :: tx "[REDACTED]")) := by decide +kernel
+  have e3 : tx " WITH ALL PRIVILEGES" =
+      ' ' :: (Token.WITH.str ++ ' ' :: (Token.ALL.str ++ ' ' :: Token.PRIVILEGES.str)) := by decide +kernel
+  rw [p1, e1, e2, e3]
+  cases admin <;>
+    simp [createUserText, adminText, List.append_assoc, List.cons_append, List.nil_append]
+
+/-- **Print → parse, CREATE USER name WITH PASSWORD 'pw' [WITH ALL PRIVILEGES]** (password literal
+put back). Without the admin clause the handler ends by looking one token ahead for `WITH`. -/
+theorem createUser_print_parse (fuel : Nat) (s : PState) (name pw : Str) (admin : Bool) (k : Str)
+    (hex1 : Expressible name) (hex2 : Expressible pw) (hk : admin = true → WordEnd k)
+    (hs : s.Before (createUserText name (quoteString pw) admin ++ k)) :
+    ∃ sK, sK.Before k ∧
+      Returns (runHandler fuel .parseCreateUserStatement) s (.createUser name pw admin) sK (!admin) [.WITH] := by
+  have e : createUserText name (quoteString pw) admin ++ k = ' ' :: (qi name ++ ' ' :: (Token.WITH.str ++
+      ' ' :: (Token.PASSWORD.str ++ ' ' :: (quoteString pw ++ (adminText admin ++ k))))) := by
+    simp only [createUserText, List.append_assoc, List.cons_append]
+  rw [e] at hs
+  obtain ⟨s1, h1, b1⟩ := parseIdent_piece s [' '] (qi name) _ name Gap.blank hs.around
+    (scansAs_ident name _ hex1 (.of_wordEnd (WordEnd.blank _)))
+  obtain ⟨s2, h2, b2⟩ := parseTokens_cons_piece s1 [' '] Token.WITH.str _ .WITH [.PASSWORD] [] Gap.blank b1.around
+    (scansAs_kw .WITH _ (by decide +kernel) (WordEnd.blank _))
+  obtain ⟨s3, h3, b3⟩ := parseTokens_cons_piece s2 [' '] Token.PASSWORD.str _ .PASSWORD [] [] Gap.blank b2.around
+    (scansAs_kw .PASSWORD _ (by decide +kernel) (WordEnd.blank _))
+  have h23 : (parseTokens [.WITH, .PASSWORD]).run s1 = .ok ((), s3) := by rw [h2, h3]; rfl
+  obtain ⟨s4, h4, b4⟩ := parseString_piece s3 [' '] (quoteString pw) _ pw Gap.blank b3.around (scansAs_string pw _ hex2)
+  simp only [runHandler, parseCreateUser]
+  cases admin with
+  | false =>
+    refine ⟨s4, by simpa [adminText] using b4, ?_⟩
+    unfold Returns
+    rw [if_pos (by simp)]
+    intro lx s' hp hne
+    rw [P.run_bind _ _ s name s1 h1, P.run_bind _ _ s1 () s3 h23, P.run_bind _ _ s3 pw s4 h4,
+      P.run_bind _ _ s4 false s' (optTok_absent .WITH hp (by simpa using hne))]
+    rfl
+  | true =>
+    simp only [adminText, if_true, List.append_assoc, List.cons_append] at b4
+    obtain ⟨s5, h5, b5⟩ := optTok_piece s4 [' '] Token.WITH.str _ .WITH [] Gap.blank b4.around
+      (scansAs_kw .WITH _ (by decide +kernel) (WordEnd.blank _))
+    obtain ⟨s6, h6, b6⟩ := parseTokens_cons_piece s5 [' '] Token.ALL.str _ .ALL [.PRIVILEGES] [] Gap.blank b5.around
+      (scansAs_kw .ALL _ (by decide +kernel) (WordEnd.blank _))
+    obtain ⟨s7, h7, b7⟩ := parseTokens_cons_piece s6 [' '] Token.PRIVILEGES.str k .PRIVILEGES [] [] Gap.blank b6.around
+      (scansAs_kw .PRIVILEGES _ (by decide +kernel) (hk rfl))
+    have h67 : (parseTokens [.ALL, .PRIVILEGES]).run s5 = .ok ((), s7) := by rw [h6, h7]; rfl
+    refine ⟨s7, b7, Returns.exact ?_⟩
+    rw [P.run_bind _ _ s name s1 h1, P.run_bind _ _ s1 () s3 h23, P.run_bind _ _ s3 pw s4 h4,
+      P.run_bind _ _ s4 true s5 h5]
+    simp only [if_true]
+    rw [P.run_bind _ _ s5 () s7 h67]
+    rfl
+
+/-- What SET PASSWORD prints after `SET PASSWORD FOR`, with `pwPiece` where the password goes. -/
+def setPasswordText (name pwPiece : Str) : Str := ' ' :: (qi name ++ ' ' :: '=' :: ' ' :: pwPiece)
+
+theorem setPassword_print (name pw : Str) :
+    (Statement.setPasswordUser pw name).print = tx "SET PASSWORD FOR" ++ setPasswordText name (tx "[REDACTED]") := by
+  have p1 : (Statement.setPasswordUser pw name).print = tx "SET PASSWORD FOR " ++ qi name ++ tx " = [REDACTED]" := rfl
+  have e1 : tx "SET PASSWORD FOR " = tx "SET PASSWORD FOR" ++ [' '] := by decide +kernel
+  have e2 : tx " = [REDACTED]" = ' ' :: '=' :: ' ' :: tx "[REDACTED]" := by decide +kernel
+  rw [p1, e1, e2]
+  simp only [setPasswordText, List.append_assoc, List.cons_append, List.nil_append]
+
+/-- **Print → parse, SET PASSWORD FOR name = 'pw'** (password literal put back). -/
+theorem setPassword_print_parse (fuel : Nat) (s : PState) (name pw k : Str)
+    (hex1 : Expressible name) (hex2 : Expressible pw)
+    (hs : s.Before (setPasswordText name (quoteString pw) ++ k)) :
+    ∃ s', (runHandler fuel .parseSetPasswordUserStatement).run s = .ok (.setPasswordUser pw name, s') ∧
+      s'.Before k := by
+  have e : setPasswordText name (quoteString pw) ++ k = ' ' :: (qi name ++ ' ' :: ('=' :: ' ' :: (quoteString pw ++ k))) := by
+    simp only [setPasswordText, List.append_assoc, List.cons_append]
+  rw [e] at hs
+  obtain ⟨s1, h1, b1⟩ := parseIdent_piece s [' '] (qi name) _ name Gap.blank hs.around
+    (scansAs_ident name _ hex1 (.of_wordEnd (WordEnd.blank _)))
+  obtain ⟨s2, h2, b2⟩ := expectTok_piece s1 [' '] ['='] _ .EQ [] ["="] Gap.blank b1.around
+    (scansAs_eq _ (by intro t h; cases h))
+  obtain ⟨s3, h3, b3⟩ := parseString_piece s2 [' '] (quoteString pw) k pw Gap.blank b2.around (scansAs_string pw k hex2)
+  refine ⟨s3, ?_, b3⟩
+  simp only [runHandler, parseSetPasswordUser]
+  rw [P.run_bind _ _ s name s1 h1, P.run_bind _ _ s1 () s2 h2, P.run_bind _ _ s2 pw s3 h3]
+  rfl
+
+/-! ### GRANT, REVOKE -/
+
+/-- `Privilege.String()` in pieces. -/
+def privText : Privilege → Str
+  | .none => Privilege.print .none
+  | .read => Token.READ.str
+  | .write => Token.WRITE.str
+  | .all => Token.ALL.str ++ ' ' :: Token.PRIVILEGES.str
+
+theorem privilege_print (p : Privilege) : p.print = privText p := by
+  cases p
+  · rfl
+  · show tx "READ" = _; decide +kernel
+  · show tx "WRITE" = _; decide +kernel
+  · show tx "ALL PRIVILEGES" = _; decide +kernel
+
+/-- `parsePrivilege` on a printed privilege (`NO PRIVILEGES` is never produced by the parser). -/
+theorem parsePrivilege_print (s : PState) (p : Privilege) (k : Str) (hp : p ≠ .none) (hk : WordEnd k)
+    (hs : s.Before (' ' :: (privText p ++ k))) :
+    ∃ s', parsePrivilege.run s = .ok (p, s') ∧ s'.Before k := by
+  cases p with
+  | none => exact absurd rfl hp
+  | read =>
+    obtain ⟨lx, s1, h1, t1, _, b1⟩ := scanIW_piece s [' '] Token.READ.str k .READ [] Gap.blank hs.around
+      (scansAs_kw .READ k (by decide +kernel) hk)
+    refine ⟨s1, ?_, b1⟩
+    unfold parsePrivilege
+    rw [P.run_bind _ _ s lx s1 h1]
+    simp only [t1]
+    rfl
+  | write =>
+    obtain ⟨lx, s1, h1, t1, _, b1⟩ := scanIW_piece s [' '] Token.WRITE.str k .WRITE [] Gap.blank hs.around
+      (scansAs_kw .WRITE k (by decide +kernel) hk)
+    refine ⟨s1, ?_, b1⟩
+    unfold parsePrivilege
+    rw [P.run_bind _ _ s lx s1 h1]
+    simp only [t1]
+    rfl
+  | all =>
+    have e : ' ' :: (privText .all ++ k) = ' ' :: (Token.ALL.str ++ ' ' :: (Token.PRIVILEGES.str ++ k)) := by
+      show ' ' :: ((Token.ALL.str ++ ' ' :: Token.PRIVILEGES.str) ++ k) = _
+      simp only [List.append_assoc, List.cons_append]
+    rw [e] at hs
+    obtain ⟨lx, s1, h1, t1, _, b1⟩ := scanIW_piece s [' '] Token.ALL.str _ .ALL [] Gap.blank hs.around
+      (scansAs_kw .ALL _ (by decide +kernel) (WordEnd.blank _))
+    obtain ⟨lx2, s2, h2, t2, _, b2⟩ := scanIW_piece s1 [' '] Token.PRIVILEGES.str k .PRIVILEGES [] Gap.blank b1.around
+      (scansAs_kw .PRIVILEGES k (by decide +kernel) hk)
+    refine ⟨s2, ?_, b2⟩
+    unfold parsePrivilege
+    rw [P.run_bind _ _ s lx s1 h1]
+    simp only [t1]
+    rw [P.run_bind _ _ s1 lx2 s2 h2]
+    simp only [t2, ne_eq, not_true_eq_false, if_false]
+    rfl
+
+/-- What GRANT prints after the keyword: `<privilege> ON <db> TO <user>`. -/
+def grantText (p : Privilege) (on user : Str) : Str :=
+  ' ' :: (privText p ++ ' ' :: (Token.ON.str ++ ' ' :: (qi on ++ ' ' :: (Token.TO.str ++ ' ' :: qi user))))
+
+/-- What `GRANT ALL PRIVILEGES TO <user>` prints after the keyword. -/
+def grantAdminText (user : Str) : Str :=
+  ' ' :: (privText .all ++ ' ' :: (Token.TO.str ++ ' ' :: qi user))
+
+theorem grant_print (p : Privilege) (on user : Str) :
+    (Statement.grant p on user).print = tx "GRANT" ++ grantText p on user ∧
+    (Statement.grantAdmin user).print = tx "GRANT" ++ grantAdminText user := by
+  have p1 : (Statement.grant p on user).print =
+      tx "GRANT " ++ p.print ++ tx " ON " ++ qi on ++ tx " TO " ++ qi user := rfl
+  have p2 : (Statement.grantAdmin user).print = tx "GRANT ALL PRIVILEGES TO " ++ qi user := rfl
+  have e1 : tx "GRANT " = tx "GRANT" ++ [' '] := by decide +kernel
+  have e2 : tx " TO " = ' ' :: (Token.TO.str ++ [' ']) := by decide +kernel
+  have e3 : tx "GRANT ALL PRIVILEGES TO " =
+      tx "GRANT" ++ ' ' :: (privText .all ++ ' ' :: (Token.TO.str ++ [' '])) := by decide +kernel
+  rw [p1, p2, e1, e2, e3, tx_on, privilege_print]
+  simp only [grantText, grantAdminText, List.append_assoc, List.cons_append, List.nil_append, and_self]
+
+/-- **Print → parse, GRANT <privilege> ON <db> TO <user>** (every privilege the parser can
+produce: READ, WRITE, ALL PRIVILEGES). -/
+theorem grant_print_parse (fuel : Nat) (s : PState) (p : Privilege) (on user k : Str) (hp : p ≠ .none)
+    (hex1 : Expressible on) (hex2 : Expressible user) (hk : IdentEnd user k)
+    (hs : s.Before (grantText p on user ++ k)) :
+    ∃ s', (runHandler fuel .parseGrantStatement).run s = .ok (.grant p on user, s') ∧ s'.Before k := by
+  have e : grantText p on user ++ k = ' ' :: (privText p ++
+      ' ' :: (Token.ON.str ++ ' ' :: (qi on ++ ' ' :: (Token.TO.str ++ ' ' :: (qi user ++ k))))) := by
+    simp only [grantText, List.append_assoc, List.cons_append]
+  rw [e] at hs
+  obtain ⟨s1, h1, b1⟩ := parsePrivilege_print s p _ hp (WordEnd.blank _) hs
+  obtain ⟨lx, s2, h2, t2, _, b2⟩ := scanIW_piece s1 [' '] Token.ON.str _ .ON [] Gap.blank b1.around
+    (scansAs_kw .ON _ (by decide +kernel) (WordEnd.blank _))
+  obtain ⟨s3, h3, b3⟩ := parseIdent_piece s2 [' '] (qi on) _ on Gap.blank b2.around
+    (scansAs_ident on _ hex1 (.of_wordEnd (WordEnd.blank _)))
+  obtain ⟨s4, h4, b4⟩ := expectTok_piece s3 [' '] Token.TO.str _ .TO [] ["TO"] Gap.blank b3.around
+    (scansAs_kw .TO _ (by decide +kernel) (WordEnd.blank _))
+  obtain ⟨s5, h5, b5⟩ := parseIdent_piece s4 [' '] (qi user) k user Gap.blank b4.around (scansAs_ident user k hex2 hk)
+  refine ⟨s5, ?_, b5⟩
+  simp only [runHandler, parseGrant]
+  rw [P.run_bind _ _ s p s1 h1, P.run_bind _ _ s1 lx s2 h2]
+  simp only [t2, if_true]
+  rw [P.run_bind _ _ s2 on s3 h3, P.run_bind _ _ s3 () s4 h4, P.run_bind _ _ s4 user s5 h5]
+  rfl
+
+/-- **Print → parse, GRANT ALL PRIVILEGES TO <user>.** -/
+theorem grantAdmin_print_parse (fuel : Nat) (s : PState) (user k : Str)
+    (hex : Expressible user) (hk : IdentEnd user k) (hs : s.Before (grantAdminText user ++ k)) :
+    ∃ s', (runHandler fuel .parseGrantStatement).run s = .ok (.grantAdmin user, s') ∧ s'.Before k := by
+  have e : grantAdminText user ++ k = ' ' :: (privText .all ++ ' ' :: (Token.TO.str ++ ' ' :: (qi user ++ k))) := by
+    simp only [grantAdminText, List.append_assoc, List.cons_append]
+  rw [e] at hs
+  obtain ⟨s1, h1, b1⟩ := parsePrivilege_print s .all _ (by decide) (WordEnd.blank _) hs
+  obtain ⟨lx, s2, h2, t2, _, b2⟩ := scanIW_piece s1 [' '] Token.TO.str _ .TO [] Gap.blank b1.around
+    (scansAs_kw .TO _ (by decide +kernel) (WordEnd.blank _))
+  obtain ⟨s3, h3, b3⟩ := parseIdent_piece s2 [' '] (qi user) k user Gap.blank b2.around (scansAs_ident user k hex hk)
+  refine ⟨s3, ?_, b3⟩
+  simp only [runHandler, parseGrant]
+  rw [P.run_bind _ _ s .all s1 h1, P.run_bind _ _ s1 lx s2 h2]
+  simp only [t2, reduceCtorEq, if_false, if_true, ne_eq, not_true_eq_false]
+  rw [P.run_bind _ _ s2 user s3 h3]
+  rfl
+
+/-- What REVOKE prints after the keyword: `<privilege> ON <db> FROM <user>`. -/
+def revokeText (p : Privilege) (on user : Str) : Str :=
+  ' ' :: (privText p ++ ' ' :: (Token.ON.str ++ ' ' :: (qi on ++ ' ' :: (Token.FROM.str ++ ' ' :: qi user))))
+
+/-- What `REVOKE ALL PRIVILEGES FROM <user>` prints after the keyword. -/
+def revokeAdminText (user : Str) : Str :=
+  ' ' :: (privText .all ++ ' ' :: (Token.FROM.str ++ ' ' :: qi user))
+
+theorem revoke_print (p : Privilege) (on user : Str) :
+    (Statement.revoke p on user).print = tx "REVOKE" ++ revokeText p on user ∧
+    (Statement.revokeAdmin user).print = tx "REVOKE" ++ revokeAdminText user := by
+  have p1 : (Statement.revoke p on user).print =
+      tx "REVOKE " ++ p.print ++ tx " ON " ++ qi on ++ tx " FROM " ++ qi user := rfl
+  have p2 : (Statement.revokeAdmin user).print = tx "REVOKE ALL PRIVILEGES FROM " ++ qi user := rfl
+  have e1 : tx "REVOKE " = tx "REVOKE" ++ [' '] := by decide +kernel
+  have e2 : tx " FROM " = ' ' :: (Token.FROM.str ++ [' ']) := by decide +kernel
+  have e3 : tx "REVOKE ALL PRIVILEGES FROM " =
+      tx "REVOKE" ++ ' ' :: (privText .all ++ ' ' :: (Token.FROM.str ++ [' '])) := by decide +kernel
+  rw [p1, p2, e1, e2, e3, tx_on, privilege_print]
+  simp only [revokeText, revokeAdminText, List.append_assoc, List.cons_append, List.nil_append, and_self]
+
+/-- **Print → parse, REVOKE <privilege> ON <db> FROM <user>** (every privilege the parser can
+produce: READ, WRITE, ALL PRIVILEGES). -/
+theorem revoke_print_parse (fuel : Nat) (s : PState) (p : Privilege) (on user k : Str) (hp : p ≠ .none)
+    (hex1 : Expressible on) (hex2 : Expressible user) (hk : IdentEnd user k)
+    (hs : s.Before (revokeText p on user ++ k)) :
+    ∃ s', (runHandler fuel .parseRevokeStatement).run s = .ok (.revoke p on user, s') ∧ s'.Before k := by
+  have e : revokeText p on user ++ k = ' ' :: (privText p ++
+      ' ' :: (Token.ON.str ++ ' ' :: (qi on ++ ' ' :: (Token.FROM.str ++ ' ' :: (qi user ++ k))))) := by
+    simp only [revokeText, List.append_assoc, List.cons_append]
+  rw [e] at hs
+  obtain ⟨s1, h1, b1⟩ := parsePrivilege_print s p _ hp (WordEnd.blank _) hs
+  obtain ⟨lx, s2, h2, t2, _, b2⟩ := scanIW_piece s1 [' '] Token.ON.str _ .ON [] Gap.blank b1.around
+    (scansAs_kw .ON _ (by decide +kernel) (WordEnd.blank _))
+  obtain ⟨s3, h3, b3⟩ := parseIdent_piece s2 [' '] (qi on) _ on Gap.blank b2.around
+    (scansAs_ident on _ hex1 (.of_wordEnd (WordEnd.blank _)))
+  obtain ⟨s4, h4, b4⟩ := expectTok_piece s3 [' '] Token.FROM.str _ .FROM [] ["FROM"] Gap.blank b3.around
+    (scansAs_kw .FROM _ (by decide +kernel) (WordEnd.blank _))
+  obtain ⟨s5, h5, b5⟩ := parseIdent_piece s4 [' '] (qi user) k user Gap.blank b4.around (scansAs_ident user k hex2 hk)
+  refine ⟨s5, ?_, b5⟩
+  simp only [runHandler, parseRevoke]
+  rw [P.run_bind _ _ s p s1 h1, P.run_bind _ _ s1 lx s2 h2]
+  simp only [t2, if_true]
+  rw [P.run_bind _ _ s2 on s3 h3, P.run_bind _ _ s3 () s4 h4, P.run_bind _ _ s4 user s5 h5]
+  rfl
+
+/-- **Print → parse, REVOKE ALL PRIVILEGES FROM <user>.** -/
+theorem revokeAdmin_print_parse (fuel : Nat) (s : PState) (user k : Str)
+    (hex : Expressible user) (hk : IdentEnd user k) (hs : s.Before (revokeAdminText user ++ k)) :
+    ∃ s', (runHandler fuel .parseRevokeStatement).run s = .ok (.revokeAdmin user, s') ∧ s'.Before k := by
+  have e : revokeAdminText user ++ k = ' ' :: (privText .all ++ ' ' :: (Token.FROM.str ++ ' ' :: (qi user ++ k))) := by
+    simp only [revokeAdminText, List.append_assoc, List.cons_append]
+  rw [e] at hs
+  obtain ⟨s1, h1, b1⟩ := parsePrivilege_print s .all _ (by decide) (WordEnd.blank _) hs
+  obtain ⟨lx, s2, h2, t2, _, b2⟩ := scanIW_piece s1 [' '] Token.FROM.str _ .FROM [] Gap.blank b1.around
+    (scansAs_kw .FROM _ (by decide +kernel) (WordEnd.blank _))
+  obtain ⟨s3, h3, b3⟩ := parseIdent_piece s2 [' '] (qi user) k user Gap.blank b2.around (scansAs_ident user k hex hk)
+  refine ⟨s3, ?_, b3⟩
+  simp only [runHandler, parseRevoke]
+  rw [P.run_bind _ _ s .all s1 h1, P.run_bind _ _ s1 lx s2 h2]
+  simp only [t2, reduceCtorEq, if_false, if_true, ne_eq, not_true_eq_false]
+  rw [P.run_bind _ _ s2 user s3 h3]
+  rfl
+
+/-! ### CREATE RETENTION POLICY -/
+
+/-- ` SHARD DURATION <d>` when positive (the printer's test). -/
+def shardText (sh : Int) : Str :=
+  if sh > 0 then ' ' :: (Token.SHARD.str ++ ' ' :: (Token.DURATION.str ++ ' ' :: formatDuration sh)) else []
+
+/-- ` DEFAULT` when set. -/
+def defaultText (b : Bool) : Str := if b then ' ' :: Token.DEFAULT.str else []
+
+/-- ` FUTURE LIMIT <d>` / ` PAST LIMIT <d>` when not zero. -/
+def limitText (t : Token) (v : Int) : Str :=
+  if v ≠ 0 then ' ' :: (t.str ++ ' ' :: (Token.LIMIT.str ++ ' ' :: formatDuration v)) else []
+
+theorem optText_shard (sh : Int) : OptText (shardText sh) := by
+  unfold shardText; split
+  · exact Or.inr ⟨_, rfl⟩
+  · exact Or.inl rfl
+theorem optText_default (b : Bool) : OptText (defaultText b) := by
+  unfold defaultText; split
+  · exact Or.inr ⟨_, rfl⟩
+  · exact Or.inl rfl
+theorem optText_limit (t : Token) (v : Int) : OptText (limitText t v) := by
+  unfold limitText; split
+  · exact Or.inr ⟨_, rfl⟩
+  · exact Or.inl rfl
+
+theorem nextNot_defaultText (b : Bool) (rest : Str) (t : Token) (hne : Token.DEFAULT ≠ t) (hr : NextNot rest t)
+    (hw : WordEnd rest) : NextNot (defaultText b ++ rest) t := by
+  unfold defaultText; split
+  · exact nextNot_kw .DEFAULT t rest (by decide +kernel) hne hw
+  · exact hr
+
+theorem nextNot_limitText (T : Token) (v : Int) (rest : Str) (t : Token) (hT : T.isKw = true) (hne : T ≠ t)
+    (hr : NextNot rest t) : NextNot (limitText T v ++ rest) t := by
+  unfold limitText; split
+  · simp only [List.append_assoc, List.cons_append]
+    exact nextNot_kw T t _ hT hne (WordEnd.blank _)
+  · exact hr
+
+/-- The optional `SHARD DURATION` clause of CREATE RETENTION POLICY on its printed form. -/
+theorem crp_shard (s : PState) (sh : Int) (rest : Str) (h0 : 0 ≤ sh) (hm : sh ≤ maxInt64)
+    (hs : s.Around (shardText sh ++ rest)) (hn : NextNot rest .SHARD) (hd : DurEnd rest) :
+    ∃ s', (do
+        if ← optTok .SHARD then
+          expectTok .DURATION ["DURATION"]
+          parseShardDuration
+        else pure 0 : P Int).run s = .ok (sh, s') ∧ s'.Around rest := by
+  unfold shardText at hs
+  by_cases hp : sh > 0
+  · rw [if_pos hp] at hs
+    simp only [List.append_assoc, List.cons_append] at hs
+    obtain ⟨s1, h1, b1⟩ := optTok_piece s [' '] Token.SHARD.str _ .SHARD [] Gap.blank hs
+      (scansAs_kw .SHARD _ (by decide +kernel) (WordEnd.blank _))
+    obtain ⟨s2, h2, b2⟩ := expectTok_piece s1 [' '] Token.DURATION.str _ .DURATION [] ["DURATION"] Gap.blank b1.around
+      (scansAs_kw .DURATION _ (by decide +kernel) (WordEnd.blank _))
+    obtain ⟨s3, h3, b3⟩ := parseShardDuration_piece s2 sh rest h0 hm b2.around hd
+    refine ⟨s3, ?_, b3.around⟩
+    rw [P.run_bind _ _ s true s1 h1]
+    simp only [if_true]
+    rw [P.run_bind _ _ s1 () s2 h2]
+    exact h3
+  · rw [if_neg hp] at hs
+    have : sh = 0 := by omega
+    subst this
+    obtain ⟨s1, h1, b1⟩ := optTok_absent_around .SHARD s rest hs hn
+    refine ⟨s1, ?_, b1⟩
+    rw [P.run_bind _ _ s false s1 h1]
+    rfl
+
+/-- The optional `DEFAULT` of CREATE RETENTION POLICY. -/
+theorem crp_default (s : PState) (b : Bool) (rest : Str) (hs : s.Around (defaultText b ++ rest))
+    (hn : NextNot rest .DEFAULT) (hw : WordEnd rest) :
+    ∃ s', (optTok .DEFAULT).run s = .ok (b, s') ∧ s'.Around rest := by
+  unfold defaultText at hs
+  cases b with
+  | true =>
+    obtain ⟨s1, h1, b1⟩ := optTok_piece s [' '] Token.DEFAULT.str rest .DEFAULT [] Gap.blank hs
+      (scansAs_kw .DEFAULT rest (by decide +kernel) hw)
+    exact ⟨s1, h1, b1.around⟩
+  | false => exact optTok_absent_around .DEFAULT s rest hs hn
+
+/-- The optional `FUTURE LIMIT` / `PAST LIMIT` clause of CREATE RETENTION POLICY. -/
+theorem crp_limit (t : Token) (ht : t.isKw = true) (s : PState) (v : Int) (rest : Str) (h0 : 0 ≤ v) (hm : v ≤ maxInt64)
+    (hs : s.Around (limitText t v ++ rest)) (hn : NextNot rest t) (hd : DurEnd rest) :
+    ∃ s', (do if ← optTok t then parseWriteLimit else pure 0 : P Int).run s = .ok (v, s') ∧ s'.Around rest := by
+  unfold limitText at hs
+  by_cases hp : v ≠ 0
+  · rw [if_pos hp] at hs
+    simp only [List.append_assoc, List.cons_append] at hs
+    obtain ⟨s1, h1, b1⟩ := optTok_piece s [' '] t.str _ t [] Gap.blank hs (scansAs_kw t _ ht (WordEnd.blank _))
+    obtain ⟨s2, h2, b2⟩ := parseWriteLimit_piece s1 v rest h0 hm b1.around hd
+    refine ⟨s2, ?_, b2.around⟩
+    rw [P.run_bind _ _ s true s1 h1]
+    simp only [if_true]
+    exact h2
+  · rw [if_neg hp] at hs
+    have : v = 0 := by omega
+    subst this
+    obtain ⟨s1, h1, b1⟩ := optTok_absent_around t s rest hs hn
+    refine ⟨s1, ?_, b1⟩
+    rw [P.run_bind _ _ s false s1 h1]
+    rfl
+
+/-- What CREATE RETENTION POLICY prints after its keywords. -/
+def crpText (name db : Str) (d : Int) (n : Nat) (sh : Int) (dflt : Bool) (fu pa : Int) : Str :=
+  ' ' :: (qi name ++ ' ' :: (Token.ON.str ++ ' ' :: (qi db ++ ' ' :: (Token.DURATION.str ++ ' ' :: (formatDuration d ++
+    ' ' :: (Token.REPLICATION.str ++ ' ' :: (natDigits n ++ (shardText sh ++ (defaultText dflt ++
+      (limitText .FUTURE fu ++ limitText .PAST pa))))))))))
+
+theorem createRetentionPolicy_print (name db : Str) (d : Int) (n : Nat) (sh : Int) (dflt : Bool) (fu pa : Int) :
+    (Statement.createRetentionPolicy name db d (n : Int) dflt sh fu pa).print =
+      tx "CREATE RETENTION POLICY" ++ crpText name db d n sh dflt fu pa := by
+  have p1 : (Statement.createRetentionPolicy name db d (n : Int) dflt sh fu pa).print =
+      tx "CREATE RETENTION POLICY " ++ qi name ++ tx " ON " ++ qi db ++ tx " DURATION " ++ formatDuration d ++
+      tx " REPLICATION " ++ intDigits (n : Int) ++
+      (if sh > 0 then tx " SHARD DURATION " ++ formatDuration sh else []) ++
+      (if dflt then tx " DEFAULT" else []) ++
+      (if fu ≠ 0 then tx " FUTURE LIMIT " ++ formatDuration fu else []) ++
+      (if pa ≠ 0 then tx " PAST LIMIT " ++ formatDuration pa else []) := rfl
+  have hd : intDigits (n : Int) = natDigits n := by unfold intDigits; simp
+  have e1 : tx "CREATE RETENTION POLICY " = tx "CREATE RETENTION POLICY" ++ [' '] := by decide +kernel
+  have e2 : tx " DURATION " = ' ' :: (Token.DURATION.str ++ [' ']) := by decide +kernel
+  have e3 : tx " REPLICATION " = ' ' :: (Token.REPLICATION.str ++ [' ']) := by decide +kernel
+  have e4 : tx " SHARD DURATION " = ' ' :: (Token.SHARD.str ++ ' ' :: (Token.DURATION.str ++ [' '])) := by
+    decide +kernel
+  have e5 : tx " DEFAULT" = ' ' :: Token.DEFAULT.str := by decide +kernel
+  have e6 : tx " FUTURE LIMIT " = ' ' :: (Token.FUTURE.str ++ ' ' :: (Token.LIMIT.str ++ [' '])) := by decide +kernel
+  have e7 : tx " PAST LIMIT " = ' ' :: (Token.PAST.str ++ ' ' :: (Token.LIMIT.str ++ [' '])) := by decide +kernel
+  rw [p1, hd, e1, e2, e3, e4, e5, e6, e7, tx_on]
+  unfold crpText shardText defaultText limitText
+  split <;> split <;> split <;> split <;>
+    simp only [List.append_assoc, List.cons_append, List.nil_append, List.append_nil]
+
+/-- **Print → parse, CREATE RETENTION POLICY** with every combination of its optional clauses, for
+all values in the ranges the parser guarantees (`ParseDuration` returns a non-negative `int64`,
+the replication factor is read by `ParseInt(1, MaxInt32)`). A zero shard duration / write limit
+prints nothing and is read back as zero. The handler ends around `k`: it looks one token ahead
+unless the statement ends with `PAST LIMIT`; `k` must not begin with a token that opens one of
+the optional clauses. -/
+theorem createRetentionPolicy_print_parse (fuel : Nat) (s : PState) (name db : Str) (d : Int) (n : Nat)
+    (sh : Int) (dflt : Bool) (fu pa : Int) (k : Str) (hex1 : Expressible name) (hex2 : Expressible db)
+    (hd : 0 ≤ d ∧ d ≤ maxInt64) (hn : 1 ≤ n ∧ (n : Int) ≤ maxInt32) (hsh : 0 ≤ sh ∧ sh ≤ maxInt64)
+    (hfu : 0 ≤ fu ∧ fu ≤ maxInt64) (hpa : 0 ≤ pa ∧ pa ≤ maxInt64) (hk : TokEnd k)
+    (hstop : ∀ t ∈ [Token.SHARD, .DEFAULT, .FUTURE, .PAST], NextNot k t)
+    (hs : s.Before (crpText name db d n sh dflt fu pa ++ k)) :
+    ∃ s', (runHandler fuel .parseCreateRetentionPolicyStatement).run s =
+        .ok (.createRetentionPolicy name db d (n : Int) dflt sh fu pa, s') ∧ s'.Around k := by
+  have e : crpText name db d n sh dflt fu pa ++ k = ' ' :: (qi name ++ ' ' :: (Token.ON.str ++ ' ' :: (qi db ++
+      ' ' :: (Token.DURATION.str ++ ' ' :: (formatDuration d ++ ' ' :: (Token.REPLICATION.str ++ ' ' :: (natDigits n ++
+      (shardText sh ++ (defaultText dflt ++ (limitText .FUTURE fu ++ (limitText .PAST pa ++ k))))))))))) := by
+    simp only [crpText, List.append_assoc, List.cons_append]
+  rw [e] at hs
+  -- what may follow each optional clause
+  have k4 : TokEnd (limitText .PAST pa ++ k) := TokEnd.opt (optText_limit _ _) hk
+  have k3 : TokEnd (limitText .FUTURE fu ++ (limitText .PAST pa ++ k)) := TokEnd.opt (optText_limit _ _) k4
+  have k2 : TokEnd (defaultText dflt ++ (limitText .FUTURE fu ++ (limitText .PAST pa ++ k))) :=
+    TokEnd.opt (optText_default _) k3
+  have k1 : TokEnd (shardText sh ++ (defaultText dflt ++ (limitText .FUTURE fu ++ (limitText .PAST pa ++ k)))) :=
+    TokEnd.opt (optText_shard _) k2
+  have n4 : NextNot k .PAST := hstop _ (by simp)
+  have n3 : NextNot (limitText .PAST pa ++ k) .FUTURE :=
+    nextNot_limitText .PAST pa k .FUTURE (by decide +kernel) (by decide) (hstop _ (by simp))
+  have n2 : NextNot (limitText .FUTURE fu ++ (limitText .PAST pa ++ k)) .DEFAULT :=
+    nextNot_limitText .FUTURE fu _ .DEFAULT (by decide +kernel) (by decide)
+      (nextNot_limitText .PAST pa k .DEFAULT (by decide +kernel) (by decide) (hstop _ (by simp)))
+  have n1 : NextNot (defaultText dflt ++ (limitText .FUTURE fu ++ (limitText .PAST pa ++ k))) .SHARD :=
+    nextNot_defaultText dflt _ .SHARD (by decide)
+      (nextNot_limitText .FUTURE fu _ .SHARD (by decide +kernel) (by decide)
+        (nextNot_limitText .PAST pa k .SHARD (by decide +kernel) (by decide) (hstop _ (by simp)))) k3.1
+  obtain ⟨s1, h1, b1⟩ := parseIdent_piece s [' '] (qi name) _ name Gap.blank hs.around
+    (scansAs_ident name _ hex1 (.of_wordEnd (WordEnd.blank _)))
+  obtain ⟨s2, h2, b2⟩ := expectTok_piece s1 [' '] Token.ON.str _ .ON [] ["ON"] Gap.blank b1.around
+    (scansAs_kw .ON _ (by decide +kernel) (WordEnd.blank _))
+  obtain ⟨s3, h3, b3⟩ := parseIdent_piece s2 [' '] (qi db) _ db Gap.blank b2.around
+    (scansAs_ident db _ hex2 (.of_wordEnd (WordEnd.blank _)))
+  obtain ⟨s4, h4, b4⟩ := expectTok_piece s3 [' '] Token.DURATION.str _ .DURATION [] ["DURATION"] Gap.blank b3.around
+    (scansAs_kw .DURATION _ (by decide +kernel) (WordEnd.blank _))
+  obtain ⟨s5, h5, b5⟩ := parseDurationTok_piece s4 [' '] (formatDuration d) _ d hd.1 hd.2 Gap.blank b4.around
+    (scansAs_dur d hd.1 _ (DurEnd.blank _))
+  obtain ⟨s6, h6, b6⟩ := expectTok_piece s5 [' '] Token.REPLICATION.str _ .REPLICATION [] ["REPLICATION"] Gap.blank
+    b5.around (scansAs_kw .REPLICATION _ (by decide +kernel) (WordEnd.blank _))
+  obtain ⟨s7, h7, b7⟩ := parseIntRange_piece s6 [' '] (natDigits n) _ 1 maxInt32 n (by omega) hn.2
+    (by have := hn.2; unfold maxInt32 at this; unfold maxInt64; omega) Gap.blank b6.around (scansAs_nat n _ k1.2.1)
+  obtain ⟨s8, h8, b8⟩ := crp_shard s7 sh _ hsh.1 hsh.2 b7.around n1 k2.2.2
+  obtain ⟨s9, h9, b9⟩ := crp_default s8 dflt _ b8 n2 k3.1
+  obtain ⟨s10, h10, b10⟩ := crp_limit .FUTURE (by decide +kernel) s9 fu _ hfu.1 hfu.2 b9 n3 k4.2.2
+  obtain ⟨s11, h11, b11⟩ := crp_limit .PAST (by decide +kernel) s10 pa k hpa.1 hpa.2 b10 n4 hk.2.2
+  refine ⟨s11, ?_, b11⟩
+  simp only [runHandler, parseCreateRetentionPolicy]
+  rw [P.run_bind _ _ s name s1 h1, P.run_bind _ _ s1 () s2 h2, P.run_bind _ _ s2 db s3 h3,
+    P.run_bind _ _ s3 () s4 h4, P.run_bind _ _ s4 d s5 h5, P.run_bind _ _ s5 () s6 h6,
+    P.run_bind _ _ s6 (n : Int) s7 h7, P.run_bind _ _ s7 sh s8 h8, P.run_bind _ _ s8 dflt s9 h9,
+    P.run_bind _ _ s9 fu s10 h10, P.run_bind _ _ s10 pa s11 h11]
+  rfl
+
+/-! ### CREATE DATABASE (without options), SHOW STATS / SHOW DIAGNOSTICS [FOR '<module>'] -/
+
+theorem createDatabase_plain_print (name : Str) :
+    (Statement.createDatabase name false none none [] 0 none none).print = tx "CREATE DATABASE" ++ ' ' :: qi name := by
+  have p1 : (Statement.createDatabase name false none none [] 0 none none).print =
+      tx "CREATE DATABASE " ++ qi name ++ [] := rfl
+  have e1 : tx "CREATE DATABASE " = tx "CREATE DATABASE" ++ [' '] := by decide +kernel
+  rw [p1, e1]
+  simp only [List.append_assoc, List.cons_append, List.nil_append, List.append_nil]
+
+/-- **Print → parse, CREATE DATABASE name** (no `WITH` clause): the handler reads the name, looks
+one token ahead for `WITH` and stays around `k`. -/
+theorem createDatabase_plain_print_parse (fuel : Nat) (s : PState) (name k : Str) (hex : Expressible name)
+    (hk : IdentEnd name k) (hstop : NextNot k .WITH) (hs : s.Before (' ' :: qi name ++ k)) :
+    ∃ s', (runHandler fuel .parseCreateDatabaseStatement).run s =
+        .ok (.createDatabase name false none none [] 0 none none, s') ∧ s'.Around k := by
+  obtain ⟨s1, h1, b1⟩ := parseIdent_piece s [' '] (qi name) k name Gap.blank hs.around (scansAs_ident name k hex hk)
+  obtain ⟨s2, h2, b2⟩ := optTok_absent_around .WITH s1 k b1.around hstop
+  refine ⟨s2, ?_, b2⟩
+  simp only [runHandler, parseCreateDatabase]
+  rw [P.run_bind _ _ s name s1 h1, P.run_bind _ _ s1 false s2 h2]
+  rfl
+
+/-- ` FOR '<module>'` when the module is not empty (the printers' test). -/
+def forText (m : Str) : Str := if m ≠ [] then ' ' :: (Token.FOR.str ++ ' ' :: quoteString m) else []
+
+/-- `parseForModule` on its printed form (the empty module prints nothing and is read back as empty). -/
+theorem parseForModule_print (s : PState) (m k : Str) (hex : Expressible m) (hstop : NextNot k .FOR)
+    (hs : s.Before (forText m ++ k)) :
+    ∃ s', parseForModule.run s = .ok (m, s') ∧ s'.Around k := by
+  unfold forText at hs
+  by_cases hm : m = []
+  · subst hm
+    obtain ⟨s1, h1, b1⟩ := optTok_absent_around .FOR s k hs.around hstop
+    refine ⟨s1, ?_, b1⟩
+    unfold parseForModule
+    rw [P.run_bind _ _ s false s1 h1]
+    rfl
+  · rw [if_pos hm] at hs
+    simp only [List.append_assoc, List.cons_append] at hs
+    obtain ⟨s1, h1, b1⟩ := optTok_piece s [' '] Token.FOR.str _ .FOR [] Gap.blank hs.around
+      (scansAs_kw .FOR _ (by decide +kernel) (WordEnd.blank _))
+    obtain ⟨s2, h2, b2⟩ := parseString_piece s1 [' '] (quoteString m) k m Gap.blank b1.around (scansAs_string m k hex)
+    refine ⟨s2, ?_, b2.around⟩
+    unfold parseForModule
+    rw [P.run_bind _ _ s true s1 h1]
+    exact h2
+
+theorem showStats_print (m : Str) :
+    (Statement.showStats m).print = tx "SHOW STATS" ++ forText m ∧
+    (Statement.showDiagnostics m).print = tx "SHOW DIAGNOSTICS" ++ forText m := by
+  have p1 : (Statement.showStats m).print = tx "SHOW STATS" ++ (if m ≠ [] then tx " FOR " ++ quoteString m else []) := rfl
+  have p2 : (Statement.showDiagnostics m).print =
+      tx "SHOW DIAGNOSTICS" ++ (if m ≠ [] then tx " FOR " ++ quoteString m else []) := rfl
+  have e1 : tx " FOR " = ' ' :: (Token.FOR.str ++ [' ']) := by decide +kernel
+  rw [p1, p2, e1]
+  unfold forText
+  split <;> simp only [List.append_assoc, List.cons_append, List.nil_append, and_self]
+
+/-- The two handlers of this family. -/
+def forModuleHandlers : List (Handler × (Str → Statement)) :=
+  [(.parseShowStatsStatement, .showStats), (.parseShowDiagnosticsStatement, .showDiagnostics)]
+
+/-- **Print → parse, SHOW STATS / SHOW DIAGNOSTICS [FOR 'module'].** -/
+theorem forModule_print_parse (fuel : Nat) (h : Handler) (C : Str → Statement) (hh : (h, C) ∈ forModuleHandlers)
+    (s : PState) (m k : Str) (hex : Expressible m) (hstop : NextNot k .FOR) (hs : s.Before (forText m ++ k)) :
+    ∃ s', (runHandler fuel h).run s = .ok (C m, s') ∧ s'.Around k := by
+  obtain ⟨s', hrun, hb⟩ := parseForModule_print s m k hex hstop hs
+  refine ⟨s', ?_, hb⟩
+  simp only [forModuleHandlers, List.mem_cons, Prod.mk.injEq, List.not_mem_nil, or_false] at hh
+  rcases hh with ⟨rfl, rfl⟩ | ⟨rfl, rfl⟩ <;>
+    (simp only [runHandler]; rw [P.run_bind _ _ s m s' hrun]; rfl)
+
+/-! ### ALTER RETENTION POLICY
+
+The options are printed in the fixed order DURATION, REPLICATION, SHARD DURATION, DEFAULT, FUTURE
+LIMIT, PAST LIMIT; the option loop accepts them in any order, remembering the ones seen. -/
+
+/-- ` <KW> <duration>` when the option is set. -/
+def optDurText (d : Option Int) : Str :=
+  match d with
+  | some v => ' ' :: (Token.DURATION.str ++ ' ' :: formatDuration v)
+  | none => []
+
+def optReplText (n : Option Nat) : Str :=
+  match n with
+  | some v => ' ' :: (Token.REPLICATION.str ++ ' ' :: natDigits v)
+  | none => []
+
+def optShardText (sh : Option Int) : Str :=
+  match sh with
+  | some v => ' ' :: (Token.SHARD.str ++ ' ' :: (Token.DURATION.str ++ ' ' :: formatDuration v))
+  | none => []
+
+/-- ` FUTURE LIMIT <d>` / ` PAST LIMIT <d>` when the option is set and not zero. -/
+def optLimitText (t : Token) (v : Option Int) : Str :=
+  match v with
+  | some v => limitText t v
+  | none => []
+
+theorem optText_optDur (d : Option Int) : OptText (optDurText d) := by
+  cases d
+  · exact Or.inl rfl
+  · exact Or.inr ⟨_, rfl⟩
+theorem optText_optRepl (n : Option Nat) : OptText (optReplText n) := by
+  cases n
+  · exact Or.inl rfl
+  · exact Or.inr ⟨_, rfl⟩
+theorem optText_optShard (d : Option Int) : OptText (optShardText d) := by
+  cases d
+  · exact Or.inl rfl
+  · exact Or.inr ⟨_, rfl⟩
+theorem optText_optLimit (t : Token) (v : Option Int) : OptText (optLimitText t v) := by
+  cases v
+  · exact Or.inl rfl
+  · exact optText_limit t _
+
+/-- The key set of the Go map `found`. -/
+def addIf (b : Bool) (t : Token) (l : List Token) : List Token := if b then t :: l else l
+
+theorem mem_addIf (x t : Token) (b : Bool) (l : List Token) : x ∈ addIf b t l ↔ (b = true ∧ x = t) ∨ x ∈ l := by
+  unfold addIf; cases b <;> simp
+
+def setDur (o : AlterOpts) : Option Int → AlterOpts
+  | some v => { o with duration := some v }
+  | none => o
+def setRepl (o : AlterOpts) : Option Nat → AlterOpts
+  | some v => { o with replication := some (v : Int) }
+  | none => o
+def setShard (o : AlterOpts) : Option Int → AlterOpts
+  | some v => { o with shard := some v }
+  | none => o
+def setDefault (o : AlterOpts) : Bool → AlterOpts
+  | true => { o with default := true }
+  | false => o
+def setFuture (o : AlterOpts) : Option Int → AlterOpts
+  | some v => { o with future := some v }
+  | none => o
+def setPast (o : AlterOpts) : Option Int → AlterOpts
+  | some v => { o with past := some v }
+  | none => o
+
+/-- A duration option within the range `ParseDuration` returns. -/
+def DurOK (d : Option Int) : Prop := ∀ v, d = some v → 0 ≤ v ∧ v ≤ maxInt64
+
+section alter
+variable (it : Nat) (found : List Token) (o : AlterOpts) (s : PState) (rest : Str)
+
+theorem alter_dur (d : Option Int) (hd : DurOK d) (hnf : Token.DURATION ∉ found) (hit : 1 ≤ it)
+    (hs : s.Around (optDurText d ++ rest)) (hk : DurEnd rest) :
+    ∃ it' s', it - 1 ≤ it' ∧ s'.Around rest ∧
+      (alterLoop it found o).run s = (alterLoop it' (addIf d.isSome .DURATION found) (setDur o d)).run s' := by
+  cases d with
+  | none => exact ⟨it, s, by omega, hs, rfl⟩
+  | some v =>
+    obtain ⟨it, rfl⟩ : ∃ j, it = j + 1 := ⟨it - 1, by omega⟩
+    obtain ⟨lx, s1, h1, t1, _, b1⟩ := scanIW_piece s [' '] Token.DURATION.str _ .DURATION [] Gap.blank hs
+      (scansAs_kw .DURATION _ (by decide +kernel) (WordEnd.blank _))
+    obtain ⟨s2, h2, b2⟩ := parseDurationTok_piece s1 [' '] (formatDuration v) rest v (hd v rfl).1 (hd v rfl).2
+      Gap.blank b1.around (scansAs_dur v (hd v rfl).1 rest hk)
+    refine ⟨it, s2, by omega, b2.around, ?_⟩
+    conv => lhs; unfold alterLoop
+    rw [P.run_bind _ _ s lx s1 h1]
+    simp only [t1, List.contains_eq_mem, hnf, decide_false, Bool.false_eq_true, if_false]
+    rw [P.run_bind _ _ s1 v s2 h2]
+    rfl
+
+theorem alter_repl (n : Option Nat) (hn : ∀ v, n = some v → 1 ≤ v ∧ (v : Int) ≤ maxInt32)
+    (hnf : Token.REPLICATION ∉ found) (hit : 1 ≤ it)
+    (hs : s.Around (optReplText n ++ rest)) (hk : NumEnd rest) :
+    ∃ it' s', it - 1 ≤ it' ∧ s'.Around rest ∧
+      (alterLoop it found o).run s = (alterLoop it' (addIf n.isSome .REPLICATION found) (setRepl o n)).run s' := by
+  cases n with
+  | none => exact ⟨it, s, by omega, hs, rfl⟩
+  | some v =>
+    obtain ⟨it, rfl⟩ : ∃ j, it = j + 1 := ⟨it - 1, by omega⟩
+    obtain ⟨lx, s1, h1, t1, _, b1⟩ := scanIW_piece s [' '] Token.REPLICATION.str _ .REPLICATION [] Gap.blank hs
+      (scansAs_kw .REPLICATION _ (by decide +kernel) (WordEnd.blank _))
+    obtain ⟨s2, h2, b2⟩ := parseIntRange_piece s1 [' '] (natDigits v) rest 1 maxInt32 v (by have := (hn v rfl).1; omega)
+      (hn v rfl).2 (by have := (hn v rfl).2; unfold maxInt32 at this; unfold maxInt64; omega) Gap.blank b1.around
+      (scansAs_nat v rest hk)
+    refine ⟨it, s2, by omega, b2.around, ?_⟩
+    conv => lhs; unfold alterLoop
+    rw [P.run_bind _ _ s lx s1 h1]
+    simp only [t1, List.contains_eq_mem, hnf, decide_false, Bool.false_eq_true, if_false]
+    rw [P.run_bind _ _ s1 (v : Int) s2 h2]
+    rfl
+
+theorem alter_shard (d : Option Int) (hd : DurOK d) (hnf : Token.SHARD ∉ found) (hit : 1 ≤ it)
+    (hs : s.Around (optShardText d ++ rest)) (hk : DurEnd rest) :
+    ∃ it' s', it - 1 ≤ it' ∧ s'.Around rest ∧
+      (alterLoop it found o).run s = (alterLoop it' (addIf d.isSome .SHARD found) (setShard o d)).run s' := by
+  cases d with
+  | none => exact ⟨it, s, by omega, hs, rfl⟩
+  | some v =>
+    obtain ⟨it, rfl⟩ : ∃ j, it = j + 1 := ⟨it - 1, by omega⟩
+    have hs' : s.Around ([' '] ++ (Token.SHARD.str ++ (' ' :: (Token.DURATION.str ++ ' ' :: (formatDuration v ++ rest))))) := by
+      simpa only [optShardText, List.append_assoc, List.cons_append, List.nil_append] using hs
+    obtain ⟨lx, s1, h1, t1, _, b1⟩ := scanIW_piece s [' '] Token.SHARD.str _ .SHARD [] Gap.blank hs'
+      (scansAs_kw .SHARD _ (by decide +kernel) (WordEnd.blank _))
+    obtain ⟨lx2, s2, h2, t2, _, b2⟩ := scanIW_piece s1 [' '] Token.DURATION.str _ .DURATION [] Gap.blank b1.around
+      (scansAs_kw .DURATION _ (by decide +kernel) (WordEnd.blank _))
+    obtain ⟨s3, h3, b3⟩ := parseShardDuration_piece s2 v rest (hd v rfl).1 (hd v rfl).2 b2.around hk
+    refine ⟨it, s3, by omega, b3.around, ?_⟩
+    conv => lhs; unfold alterLoop
+    rw [P.run_bind _ _ s lx s1 h1]
+    simp only [t1, List.contains_eq_mem, hnf, decide_false, Bool.false_eq_true, if_false]
+    rw [P.run_bind _ _ s1 lx2 s2 h2]
+    simp only [t2, if_true]
+    rw [P.run_bind _ _ s2 v s3 h3]
+    rfl
+
+theorem alter_default (b : Bool) (hnf : Token.DEFAULT ∉ found) (hit : 1 ≤ it)
+    (hs : s.Around (defaultText b ++ rest)) (hk : WordEnd rest) :
+    ∃ it' s', it - 1 ≤ it' ∧ s'.Around rest ∧
+      (alterLoop it found o).run s = (alterLoop it' (addIf b .DEFAULT found) (setDefault o b)).run s' := by
+  cases b with
+  | false => exact ⟨it, s, by omega, hs, rfl⟩
+  | true =>
+    obtain ⟨it, rfl⟩ : ∃ j, it = j + 1 := ⟨it - 1, by omega⟩
+    obtain ⟨lx, s1, h1, t1, _, b1⟩ := scanIW_piece s [' '] Token.DEFAULT.str rest .DEFAULT [] Gap.blank hs
+      (scansAs_kw .DEFAULT rest (by decide +kernel) hk)
+    refine ⟨it, s1, by omega, b1.around, ?_⟩
+    conv => lhs; unfold alterLoop
+    rw [P.run_bind _ _ s lx s1 h1]
+    simp only [t1, List.contains_eq_mem, hnf, decide_false, Bool.false_eq_true, if_false]
+    rfl
+
+theorem alter_future (d : Option Int) (hd : DurOK d) (hz : d ≠ some 0) (hnf : Token.FUTURE ∉ found) (hit : 1 ≤ it)
+    (hs : s.Around (optLimitText .FUTURE d ++ rest)) (hk : DurEnd rest) :
+    ∃ it' s', it - 1 ≤ it' ∧ s'.Around rest ∧
+      (alterLoop it found o).run s = (alterLoop it' (addIf d.isSome .FUTURE found) (setFuture o d)).run s' := by
+  cases d with
+  | none => exact ⟨it, s, by omega, hs, rfl⟩
+  | some v =>
+    obtain ⟨it, rfl⟩ : ∃ j, it = j + 1 := ⟨it - 1, by omega⟩
+    have hv : v ≠ 0 := fun e => hz (by rw [e])
+    have hs' : s.Around ([' '] ++ (Token.FUTURE.str ++ (' ' :: (Token.LIMIT.str ++ ' ' :: (formatDuration v ++ rest))))) := by
+      simpa only [optLimitText, limitText, hv, ne_eq, not_false_eq_true, if_true, List.append_assoc, List.cons_append,
+        List.nil_append] using hs
+    obtain ⟨lx, s1, h1, t1, _, b1⟩ := scanIW_piece s [' '] Token.FUTURE.str _ .FUTURE [] Gap.blank hs'
+      (scansAs_kw .FUTURE _ (by decide +kernel) (WordEnd.blank _))
+    obtain ⟨s2, h2, b2⟩ := parseWriteLimit_piece s1 v rest (hd v rfl).1 (hd v rfl).2 b1.around hk
+    refine ⟨it, s2, by omega, b2.around, ?_⟩
+    conv => lhs; unfold alterLoop
+    rw [P.run_bind _ _ s lx s1 h1]
+    simp only [t1, List.contains_eq_mem, hnf, decide_false, Bool.false_eq_true, if_false]
+    rw [P.run_bind _ _ s1 v s2 h2]
+    rfl
+
+theorem alter_past (d : Option Int) (hd : DurOK d) (hz : d ≠ some 0) (hnf : Token.PAST ∉ found) (hit : 1 ≤ it)
+    (hs : s.Around (optLimitText .PAST d ++ rest)) (hk : DurEnd rest) :
+    ∃ it' s', it - 1 ≤ it' ∧ s'.Around rest ∧
+      (alterLoop it found o).run s = (alterLoop it' (addIf d.isSome .PAST found) (setPast o d)).run s' := by
+  cases d with
+  | none => exact ⟨it, s, by omega, hs, rfl⟩
+  | some v =>
+    obtain ⟨it, rfl⟩ : ∃ j, it = j + 1 := ⟨it - 1, by omega⟩
+    have hv : v ≠ 0 := fun e => hz (by rw [e])
+    have hs' : s.Around ([' '] ++ (Token.PAST.str ++ (' ' :: (Token.LIMIT.str ++ ' ' :: (formatDuration v ++ rest))))) := by
+      simpa only [optLimitText, limitText, hv, ne_eq, not_false_eq_true, if_true, List.append_assoc, List.cons_append,
+        List.nil_append] using hs
+    obtain ⟨lx, s1, h1, t1, _, b1⟩ := scanIW_piece s [' '] Token.PAST.str _ .PAST [] Gap.blank hs'
+      (scansAs_kw .PAST _ (by decide +kernel) (WordEnd.blank _))
+    obtain ⟨s2, h2, b2⟩ := parseWriteLimit_piece s1 v rest (hd v rfl).1 (hd v rfl).2 b1.around hk
+    refine ⟨it, s2, by omega, b2.around, ?_⟩
+    conv => lhs; unfold alterLoop
+    rw [P.run_bind _ _ s lx s1 h1]
+    simp only [t1, List.contains_eq_mem, hnf, decide_false, Bool.false_eq_true, if_false]
+    rw [P.run_bind _ _ s1 v s2 h2]
+    rfl
+
+/-- The last round of the option loop: a token that is no option ends it (pushed back). -/
+theorem alter_end (hit : 1 ≤ it) (hne : found ≠ []) (hs : s.Around rest)
+    (hstop : ∀ t ∈ [Token.DURATION, .REPLICATION, .SHARD, .DEFAULT, .FUTURE, .PAST], NextNot rest t)
+    (hfound : ∀ t ∈ found, t ∈ [Token.DURATION, .REPLICATION, .SHARD, .DEFAULT, .FUTURE, .PAST]) :
+    ∃ s', s'.Around rest ∧ (alterLoop it found o).run s = .ok (o, s') := by
+  obtain ⟨it, rfl⟩ : ∃ j, it = j + 1 := ⟨it - 1, by omega⟩
+  obtain ⟨s0, hb, he⟩ := hs.scanIW_eq
+  obtain ⟨lx, s1, h1⟩ := scanIW_total s0
+  have hnot : ∀ t ∈ [Token.DURATION, .REPLICATION, .SHARD, .DEFAULT, .FUTURE, .PAST], lx.tok ≠ t :=
+    fun t ht => hstop t ht s0 lx s1 hb h1
+  have hnf : lx.tok ∉ found := fun hm => hnot _ (hfound _ hm) rfl
+  refine ⟨{ s1 with n := s1.n + 1 }, ⟨s0, hb, Or.inr ⟨lx, s1, h1, rfl⟩⟩, ?_⟩
+  conv => lhs; unfold alterLoop
+  rw [P.run_bind _ _ s lx s1 (by rw [he]; exact h1)]
+  simp only [List.contains_eq_mem, hnf, decide_false, Bool.false_eq_true, if_false]
+  split
+  · next h => exact absurd h (hnot _ (by simp))
+  · next h => exact absurd h (hnot _ (by simp))
+  · next h => exact absurd h (hnot _ (by simp))
+  · next h => exact absurd h (hnot _ (by simp))
+  · next h => exact absurd h (hnot _ (by simp))
+  · next h => exact absurd h (hnot _ (by simp))
+  · simp only [hne, if_false]
+    rw [P.run_bind _ _ s1 () _ (unscan_run s1)]
+    rfl
+
+end alter
+
+/-- What ALTER RETENTION POLICY prints after its keywords. -/
+def arpText (name db : Str) (d : Option Int) (n : Option Nat) (sh : Option Int) (dflt : Bool) (fu pa : Option Int) : Str :=
+  ' ' :: (qi name ++ ' ' :: (Token.ON.str ++ ' ' :: (qi db ++ (optDurText d ++ (optReplText n ++ (optShardText sh ++
+    (defaultText dflt ++ (optLimitText .FUTURE fu ++ optLimitText .PAST pa))))))))
+
+theorem alterRetentionPolicy_print (name db : Str) (d : Option Int) (n : Option Nat) (sh : Option Int) (dflt : Bool)
+    (fu pa : Option Int) :
+    (Statement.alterRetentionPolicy name db d (n.map Int.ofNat) dflt sh fu pa).print =
+      tx "ALTER RETENTION POLICY" ++ arpText name db d n sh dflt fu pa := by
+  have p1 : (Statement.alterRetentionPolicy name db d (n.map Int.ofNat) dflt sh fu pa).print =
+      tx "ALTER RETENTION POLICY " ++ qi name ++ tx " ON " ++ qi db ++ optDur " DURATION " d ++
+      (match n.map Int.ofNat with
+       | none => []
+       | some v => tx " REPLICATION " ++ intDigits v) ++
+      optDur " SHARD DURATION " sh ++ (if dflt then tx " DEFAULT" else []) ++
+      (match fu with
+       | some v => if v ≠ 0 then tx " FUTURE LIMIT " ++ formatDuration v else []
+       | none => []) ++
+      (match pa with
+       | some v => if v ≠ 0 then tx " PAST LIMIT " ++ formatDuration v else []
+       | none => []) := rfl
+  have hd : ∀ v : Nat, intDigits (v : Int) = natDigits v := by intro v; unfold intDigits; simp
+  have e1 : tx "ALTER RETENTION POLICY " = tx "ALTER RETENTION POLICY" ++ [' '] := by decide +kernel
+  have e2 : tx " DURATION " = ' ' :: (Token.DURATION.str ++ [' ']) := by decide +kernel
+  have e3 : tx " REPLICATION " = ' ' :: (Token.REPLICATION.str ++ [' ']) := by decide +kernel
+  have e4 : tx " SHARD DURATION " = ' ' :: (Token.SHARD.str ++ ' ' :: (Token.DURATION.str ++ [' '])) := by
+    decide +kernel
+  have e5 : tx " DEFAULT" = ' ' :: Token.DEFAULT.str := by decide +kernel
+  have e6 : tx " FUTURE LIMIT " = ' ' :: (Token.FUTURE.str ++ ' ' :: (Token.LIMIT.str ++ [' '])) := by decide +kernel
+  have e7 : tx " PAST LIMIT " = ' ' :: (Token.PAST.str ++ ' ' :: (Token.LIMIT.str ++ [' '])) := by decide +kernel
+  rw [p1, e1, e3, e5, e6, e7, tx_on]
+  unfold arpText
+  cases d <;> cases n <;> cases sh <;> cases fu <;> cases pa <;>
+    simp only [optDur, optDurText, optReplText, optShardText, optLimitText, limitText, defaultText, e2, e4, hd,
+      Option.map_some, Option.map_none, Int.ofNat_eq_natCast] <;>
+    (repeat' split) <;>
+    simp only [List.append_assoc, List.cons_append, List.nil_append, List.append_nil]
+
+/-- **Print → parse, ALTER RETENTION POLICY** (partial). For every combination of options within
+the ranges the parser guarantees, *except* the region of the recorded finding
+`zero-duration-option-not-printed`: a `FUTURE LIMIT` / `PAST LIMIT` of zero (`fu ≠ some 0`,
+`pa ≠ some 0`: such an option is not printed and comes back as absent) and a statement none of
+whose options is printed (`hany`; the printed text then ends after the database name and is rejected).
+`k` must not begin with a token that names an option. -/
+theorem alterRetentionPolicy_print_parse_partial (fuel : Nat) (s : PState) (name db : Str) (d : Option Int)
+    (n : Option Nat) (sh : Option Int) (dflt : Bool) (fu pa : Option Int) (k : Str)
+    (hex1 : Expressible name) (hex2 : Expressible db) (hd : DurOK d)
+    (hn : ∀ v, n = some v → 1 ≤ v ∧ (v : Int) ≤ maxInt32) (hsh : DurOK sh) (hfu : DurOK fu) (hpa : DurOK pa)
+    (hfz : fu ≠ some 0) (hpz : pa ≠ some 0)
+    (hany : d.isSome ∨ n.isSome ∨ sh.isSome ∨ dflt = true ∨ fu.isSome ∨ pa.isSome) (hk : TokEnd k)
+    (hstop : ∀ t ∈ [Token.DURATION, .REPLICATION, .SHARD, .DEFAULT, .FUTURE, .PAST], NextNot k t)
+    (hs : s.Before (arpText name db d n sh dflt fu pa ++ k)) :
+    ∃ s', (runHandler fuel .parseAlterRetentionPolicyStatement).run s =
+        .ok (.alterRetentionPolicy name db d (n.map Int.ofNat) dflt sh fu pa, s') ∧ s'.Around k := by
+  have e : arpText name db d n sh dflt fu pa ++ k = ' ' :: (qi name ++ ' ' :: (Token.ON.str ++ ' ' :: (qi db ++
+      (optDurText d ++ (optReplText n ++ (optShardText sh ++ (defaultText dflt ++ (optLimitText .FUTURE fu ++
+        (optLimitText .PAST pa ++ k))))))))) := by
+    simp only [arpText, List.append_assoc, List.cons_append]
+  rw [e] at hs
+  have k6 : TokEnd (optLimitText .PAST pa ++ k) := TokEnd.opt (optText_optLimit _ _) hk
+  have k5 := TokEnd.opt (optText_optLimit .FUTURE fu) k6
+  have k4 := TokEnd.opt (optText_default dflt) k5
+  have k3 := TokEnd.opt (optText_optShard sh) k4
+  have k2 := TokEnd.opt (optText_optRepl n) k3
+  have k1 := TokEnd.opt (optText_optDur d) k2
+  obtain ⟨lx, s1, h1, t1, l1, b1⟩ := scanIW_piece s [' '] (qi name) _ .IDENT name Gap.blank hs.around
+    (scansAs_ident name _ hex1 (.of_wordEnd (WordEnd.blank _)))
+  obtain ⟨s2, h2, b2⟩ := expectTok_piece s1 [' '] Token.ON.str _ .ON [] ["ON"] Gap.blank b1.around
+    (scansAs_kw .ON _ (by decide +kernel) (WordEnd.blank _))
+  obtain ⟨s3, h3, b3⟩ := parseIdent_piece s2 [' '] (qi db) _ db Gap.blank b2.around
+    (scansAs_ident db _ hex2 (.of_wordEnd k1.1))
+  obtain ⟨i1, s4, g1, b4, r1⟩ := alter_dur 8 [] {} s3 _ d hd (by simp) (by omega) b3.around k2.2.2
+  obtain ⟨i2, s5, g2, b5, r2⟩ := alter_repl i1 (addIf d.isSome .DURATION []) (setDur {} d) s4 _ n hn
+    (by simp [mem_addIf]) (by omega) b4 k3.2.1
+  obtain ⟨i3, s6, g3, b6, r3⟩ := alter_shard i2 (addIf n.isSome .REPLICATION (addIf d.isSome .DURATION []))
+    (setRepl (setDur {} d) n) s5 _ sh hsh (by simp [mem_addIf]) (by omega) b5 k4.2.2
+  obtain ⟨i4, s7, g4, b7, r4⟩ := alter_default i3 (addIf sh.isSome .SHARD (addIf n.isSome .REPLICATION (addIf d.isSome .DURATION [])))
+    (setShard (setRepl (setDur {} d) n) sh) s6 _ dflt (by simp [mem_addIf]) (by omega) b6 k5.1
+  obtain ⟨i5, s8, g5, b8, r5⟩ := alter_future i4 (addIf dflt .DEFAULT (addIf sh.isSome .SHARD (addIf n.isSome .REPLICATION (addIf d.isSome .DURATION []))))
+    (setDefault (setShard (setRepl (setDur {} d) n) sh) dflt) s7 _ fu hfu hfz (by simp [mem_addIf]) (by omega) b7 k6.2.2
+  obtain ⟨i6, s9, g6, b9, r6⟩ := alter_past i5 (addIf fu.isSome .FUTURE (addIf dflt .DEFAULT (addIf sh.isSome .SHARD (addIf n.isSome .REPLICATION (addIf d.isSome .DURATION [])))))
+    (setFuture (setDefault (setShard (setRepl (setDur {} d) n) sh) dflt) fu) s8 k pa hpa hpz (by simp [mem_addIf]) (by omega) b8 hk.2.2
+  obtain ⟨s10, b10, r7⟩ := alter_end i6 (addIf pa.isSome .PAST (addIf fu.isSome .FUTURE (addIf dflt .DEFAULT (addIf sh.isSome .SHARD (addIf n.isSome .REPLICATION (addIf d.isSome .DURATION []))))))
+    (setPast (setFuture (setDefault (setShard (setRepl (setDur {} d) n) sh) dflt) fu) pa) s9 k (by omega)
+    (by
+      intro hnil
+      have : ∀ x : Token, x ∉ addIf pa.isSome .PAST (addIf fu.isSome .FUTURE (addIf dflt .DEFAULT
+          (addIf sh.isSome .SHARD (addIf n.isSome .REPLICATION (addIf d.isSome .DURATION []))))) := by
+        intro x; rw [hnil]; simp
+      rcases hany with h | h | h | h | h | h
+      · exact this .DURATION (by simp [mem_addIf, h])
+      · exact this .REPLICATION (by simp [mem_addIf, h])
+      · exact this .SHARD (by simp [mem_addIf, h])
+      · exact this .DEFAULT (by simp [mem_addIf, h])
+      · exact this .FUTURE (by simp [mem_addIf, h])
+      · exact this .PAST (by simp [mem_addIf, h]))
+    b9 hstop
+    (by
+      intro t ht
+      simp only [mem_addIf, List.not_mem_nil, or_false] at ht
+      rcases ht with ⟨_, rfl⟩ | ⟨_, rfl⟩ | ⟨_, rfl⟩ | ⟨_, rfl⟩ | ⟨_, rfl⟩ | ⟨_, rfl⟩ <;> simp)
+  refine ⟨s10, ?_, b10⟩
+  simp only [runHandler, parseAlterRetentionPolicy]
+  rw [P.run_bind _ _ s lx s1 h1]
+  simp only [t1, reduceCtorEq, if_false, if_true]
+  rw [P.run_bind _ _ s1 name s1 (by rw [l1]; rfl), P.run_bind _ _ s1 () s2 h2, P.run_bind _ _ s2 db s3 h3,
+    P.run_bind _ _ s3 _ s10 (by rw [r1, r2, r3, r4, r5, r6]; exact r7)]
+  cases d <;> cases n <;> cases sh <;> cases dflt <;> cases fu <;> cases pa <;> rfl
+
+/-! ### non-vacuity of the family theorems
+
+Each on a concrete statement at the end of an input (`k` = the NUL sentinel). -/
+
+/-- The state of a parser started on a text without CR. -/
+theorem init_before (text : Str) (h : foldCR text = text) : (PState.init text [] []).Before (text ++ [eofRune]) := by
+  have := PState.init_before text [] []
+  rwa [h] at this
+
+theorem stop_eof (l : List Token) (h : ∀ t ∈ l, t ≠ .EOF) : ∀ t ∈ l, NextNot [eofRune] t :=
+  fun t ht => nextNot_eof t (h t ht)
+
+/-- `KILL QUERY 36 ON "host 1"`. -/
+example : ∃ sK, Returns (runHandler 10 .parseKillQueryStatement) (PState.init (killQueryText 36 "host 1".toList) [] [])
+    (.killQuery 36 "host 1".toList) sK false [.ON] := by
+  obtain ⟨sK, _, h⟩ := killQuery_print_parse 10 (PState.init (killQueryText 36 "host 1".toList) [] []) 36
+    "host 1".toList [eofRune] (by decide) (by decide) (.of_wordEnd .eof) .eof (init_before _ (by decide +kernel))
+  exact ⟨sK, h⟩
+
+/-- `DROP SUBSCRIPTION sub0 ON "my db".autogen`. -/
+example : ∃ s', (runHandler 10 .parseDropSubscriptionStatement).run
+    (PState.init (dropSubscriptionText "sub0".toList "my db".toList "autogen".toList) [] []) =
+      .ok (.dropSubscription "sub0".toList "my db".toList "autogen".toList, s') := by
+  obtain ⟨s', h, _⟩ := dropSubscription_print_parse 10
+    (PState.init (dropSubscriptionText "sub0".toList "my db".toList "autogen".toList) [] []) "sub0".toList
+    "my db".toList "autogen".toList [eofRune] (by decide) (by decide) (by decide) (.of_wordEnd .eof)
+    (init_before _ (by decide +kernel))
+  exact ⟨s', h⟩
+
+/-- `CREATE USER "jo e" WITH PASSWORD 'it''s' WITH ALL PRIVILEGES` (password with an escaped quote). -/
+example : ∃ sK, Returns (runHandler 10 .parseCreateUserStatement)
+    (PState.init (createUserText "jo e".toList (quoteString "it's".toList) true) [] [])
+    (.createUser "jo e".toList "it's".toList true) sK false [.WITH] := by
+  obtain ⟨sK, _, h⟩ := createUser_print_parse 10
+    (PState.init (createUserText "jo e".toList (quoteString "it's".toList) true) [] []) "jo e".toList "it's".toList
+    true [eofRune] (by decide) (by decide) (fun _ => .eof) (init_before _ (by decide +kernel))
+  exact ⟨sK, h⟩
+
+/-- `SET PASSWORD FOR bob = 'pa\\ss'`. -/
+example : ∃ s', (runHandler 10 .parseSetPasswordUserStatement).run
+    (PState.init (setPasswordText "bob".toList (quoteString "pa\\ss".toList)) [] []) =
+      .ok (.setPasswordUser "pa\\ss".toList "bob".toList, s') := by
+  obtain ⟨s', h, _⟩ := setPassword_print_parse 10
+    (PState.init (setPasswordText "bob".toList (quoteString "pa\\ss".toList)) [] []) "bob".toList "pa\\ss".toList
+    [eofRune] (by decide) (by decide) (init_before _ (by decide +kernel))
+  exact ⟨s', h⟩
+
+/-- `GRANT ALL PRIVILEGES ON "select" TO alice` and `REVOKE ALL PRIVILEGES FROM "a b"`. -/
+example : (∃ s', (runHandler 10 .parseGrantStatement).run
+      (PState.init (grantText .all "select".toList "alice".toList) [] []) =
+        .ok (.grant .all "select".toList "alice".toList, s')) ∧
+    (∃ s', (runHandler 10 .parseRevokeStatement).run (PState.init (revokeAdminText "a b".toList) [] []) =
+        .ok (.revokeAdmin "a b".toList, s')) := by
+  obtain ⟨s1, h1, _⟩ := grant_print_parse 10 (PState.init (grantText .all "select".toList "alice".toList) [] []) .all
+    "select".toList "alice".toList [eofRune] (by decide) (by decide) (by decide) (.of_wordEnd .eof)
+    (init_before _ (by decide +kernel))
+  obtain ⟨s2, h2, _⟩ := revokeAdmin_print_parse 10 (PState.init (revokeAdminText "a b".toList) [] []) "a b".toList
+    [eofRune] (by decide) (.of_wordEnd .eof) (init_before _ (by decide +kernel))
+  exact ⟨⟨s1, h1⟩, ⟨s2, h2⟩⟩
+
+/-- `CREATE RETENTION POLICY "1h" ON db0 DURATION 90m REPLICATION 3 SHARD DURATION 1h DEFAULT PAST LIMIT 5s`. -/
+example : ∃ s', (runHandler 10 .parseCreateRetentionPolicyStatement).run
+    (PState.init (crpText "1h".toList "db0".toList 5400000000000 3 3600000000000 true 0 5000000000) [] []) =
+      .ok (.createRetentionPolicy "1h".toList "db0".toList 5400000000000 3 true 3600000000000 0 5000000000, s') := by
+  obtain ⟨s', h, _⟩ := createRetentionPolicy_print_parse 10
+    (PState.init (crpText "1h".toList "db0".toList 5400000000000 3 3600000000000 true 0 5000000000) [] [])
+    "1h".toList "db0".toList 5400000000000 3 3600000000000 true 0 5000000000 [eofRune] (by decide) (by decide)
+    (by decide) (by decide) (by decide) (by decide) (by decide) .eof (stop_eof _ (by decide))
+    (init_before _ (by decide +kernel))
+  exact ⟨s', h⟩
+
+example : crpText "1h".toList "db0".toList 5400000000000 3 3600000000000 true 0 5000000000 =
+    " \"1h\" ON db0 DURATION 90m REPLICATION 3 SHARD DURATION 1h DEFAULT PAST LIMIT 5s".toList := by decide +kernel
+
+/-- `SHOW RETENTION POLICIES` (no database) and `SHOW STATS FOR 'runtime'` and `CREATE DATABASE "my-db"`. -/
+example : (∃ sK, Returns (runHandler 10 .parseShowRetentionPoliciesStatement) (PState.init [] [] [])
+      (.showRetentionPolicies []) sK true [.ON]) ∧
+    (∃ s', (runHandler 10 .parseShowStatsStatement).run (PState.init (forText "runtime".toList) [] []) =
+      .ok (.showStats "runtime".toList, s')) ∧
+    (∃ s', (runHandler 10 .parseCreateDatabaseStatement).run (PState.init (' ' :: qi "my-db".toList) [] []) =
+      .ok (.createDatabase "my-db".toList false none none [] 0 none none, s')) := by
+  obtain ⟨sK, _, h1⟩ := showRetentionPolicies_print_parse 10 (PState.init [] [] []) [] [eofRune] (by decide)
+    (.of_wordEnd .eof) (init_before [] rfl)
+  obtain ⟨s2, h2, _⟩ := forModule_print_parse 10 .parseShowStatsStatement .showStats (by simp [forModuleHandlers])
+    (PState.init (forText "runtime".toList) [] []) "runtime".toList [eofRune] (by decide)
+    (nextNot_eof _ (by decide)) (init_before _ (by decide +kernel))
+  obtain ⟨s3, h3, _⟩ := createDatabase_plain_print_parse 10 (PState.init (' ' :: qi "my-db".toList) [] [])
+    "my-db".toList [eofRune] (by decide) (.of_wordEnd .eof) (nextNot_eof _ (by decide))
+    (init_before _ (by decide +kernel))
+  exact ⟨⟨sK, h1⟩, ⟨s2, h2⟩, ⟨s3, h3⟩⟩
+
+/-- `ALTER RETENTION POLICY "default" ON db0 DURATION 1w SHARD DURATION 0s DEFAULT FUTURE LIMIT 2m`. -/
+example : ∃ s', (runHandler 10 .parseAlterRetentionPolicyStatement).run
+    (PState.init (arpText "default".toList "db0".toList (some 604800000000000) none (some 0) true (some 120000000000) none)
+      [] []) =
+      .ok (.alterRetentionPolicy "default".toList "db0".toList (some 604800000000000) none true (some 0)
+        (some 120000000000) none, s') := by
+  obtain ⟨s', h, _⟩ := alterRetentionPolicy_print_parse_partial 10
+    (PState.init (arpText "default".toList "db0".toList (some 604800000000000) none (some 0) true (some 120000000000) none)
+      [] [])
+    "default".toList "db0".toList (some 604800000000000) none (some 0) true (some 120000000000) none [eofRune]
+    (by decide) (by decide) (by intro v h; cases h; decide) (by intro v h; cases h)
+    (by intro v h; cases h; decide) (by intro v h; cases h; decide) (by intro v h; cases h) (by decide) (by decide)
+    (Or.inl rfl) .eof (stop_eof _ (by decide)) (init_before _ (by decide +kernel))
+  exact ⟨s', h⟩
+
+/-- Why the hypotheses of `alterRetentionPolicy_print_parse_partial` are needed (the recorded finding
+`zero-duration-option-not-printed`): `ALTER RETENTION POLICY p ON d PAST LIMIT 0s` is accepted, its
+statement prints without any option, and that text is rejected. -/
+theorem alterRetentionPolicy_zero_limit_counterexample :
+    (match parseStatementText "ALTER RETENTION POLICY p ON d PAST LIMIT 0s".toList [] [] with
+     | .ok (.alterRetentionPolicy n d none none false none none (some 0)) => n == "p".toList && d == "d".toList
+     | _ => false) = true ∧
+    (Statement.alterRetentionPolicy "p".toList "d".toList none none false none none (some 0)).print =
+      "ALTER RETENTION POLICY p ON d".toList ∧
+    (match parseStatementText "ALTER RETENTION POLICY p ON d".toList [] [] with
+     | .ok _ => false
+     | .error _ => true) = true := by
+  refine ⟨?_, ?_, ?_⟩ <;> decide +kernel
+
+/-! ### the single-name statements once more, in full
+
+With the pieces of `Lemmas/StmtPieces.lean` the two partial theorems above merge into one that
+also covers a bare name at the very end of the input (the scanner swallows the NUL sentinel there;
+`PState.Before` accounts for it). -/
+
+/-- **Print → parse, DROP DATABASE / DROP MEASUREMENT / DROP USER / SHOW GRANTS FOR.** -/
+theorem singleName_print_parse (fuel : Nat) (h : Handler) (C : Str → Statement) (hh : (h, C) ∈ singleNameHandlers)
+    (s : PState) (name k : Str) (hex : Expressible name) (hk : IdentEnd name k)
+    (hs : s.Before (' ' :: qi name ++ k)) :
+    ∃ s', (runHandler fuel h).run s = .ok (C name, s') ∧ s'.Before k := by
+  obtain ⟨s', hrun, hb⟩ := parseIdent_piece s [' '] (qi name) k name Gap.blank hs.around (scansAs_ident name k hex hk)
+  refine ⟨s', ?_, hb⟩
+  simp only [singleNameHandlers, List.mem_cons, Prod.mk.injEq, List.not_mem_nil, or_false] at hh
+  rcases hh with ⟨rfl, rfl⟩ | ⟨rfl, rfl⟩ | ⟨rfl, rfl⟩ | ⟨rfl, rfl⟩ <;>
+    (simp only [runHandler]; rw [P.run_bind _ _ s name s' hrun]; rfl)
+
+/-- Non-vacuity: `DROP MEASUREMENT cpu` at the very end of the input (excluded before). -/
+example : ∃ s', (runHandler 10 .parseDropMeasurementStatement).run (PState.init " cpu".toList [] []) =
+    .ok (.dropMeasurement "cpu".toList, s') := by
+  obtain ⟨s', h, _⟩ := singleName_print_parse 10 .parseDropMeasurementStatement .dropMeasurement
+    (by simp [singleNameHandlers]) (PState.init " cpu".toList [] []) "cpu".toList [eofRune] (by decide)
+    (.of_wordEnd .eof) (init_before " cpu".toList (by decide +kernel))
+  exact ⟨s', h⟩
+
+/-! ## the dispatch keywords at text level
+
+`ParseStatement` walks the tree of parse_tree.go along the statement's keywords. On the printed
+keywords (upper case, single blanks) every round of `dispatchLoop` reads one keyword and descends;
+the last one selects the handler, which starts right after it. Together with a family theorem
+this gives the round trip through `ParseStatement` itself, on the whole printed text. -/
+
+/-- Follow keyword tokens through the regenerated dispatch tree from node `idx`: the handler the
+last one selects. -/
+def dispatchPath : Nat → List Token → Option Handler
+  | _, [] => none
+  | idx, t :: rest =>
+    match lookupTok t (dispatch.getD idx default).subs with
+    | some j => dispatchPath j rest
+    | none =>
+      match rest with
+      | [] => lookupTok t (dispatch.getD idx default).handlers
+      | _ :: _ => none
+
+/-- Keywords in their canonical spelling, separated by single blanks. -/
+def kwText : List Token → Str
+  | [] => []
+  | [t] => t.str
+  | t :: t2 :: rest => t.str ++ ' ' :: kwText (t2 :: rest)
+
+/-- **The dispatch on printed keywords.** If the keywords `toks` lead from node `idx` to handler
+`h`, then `dispatchLoop` on their printed form followed by `k` (which does not continue the last
+keyword) is `h` started right before `k`. -/
+theorem dispatch_print (fuel : Nat) (h : Handler) (toks : List Token) :
+    ∀ (it idx : Nat) (s : PState) (pre k : Str), dispatchPath idx toks = some h →
+      (∀ t ∈ toks, t.isKw = true) → toks.length ≤ it → Gap pre → WordEnd k →
+      s.Before (pre ++ (kwText toks ++ k)) →
+      ∃ s', (dispatchLoop fuel it idx).run s = (runHandler fuel h).run s' ∧ s'.Before k := by
+  induction toks with
+  | nil => intro it idx s pre k hp; cases hp
+  | cons t rest ih =>
+    intro it idx s pre k hp hkw hlen hpre hk hs
+    cases it with
+    | zero => simp at hlen
+    | succ it =>
+    cases rest with
+    | nil =>
+      obtain ⟨lx, s1, h1, t1, _, b1⟩ := scanIW_piece s pre t.str k t [] hpre hs.around
+        (scansAs_kw t k (hkw t (by simp)) hk)
+      refine ⟨s1, ?_, b1⟩
+      simp only [dispatchPath] at hp
+      conv => lhs; unfold dispatchLoop
+      rw [P.run_bind _ _ s lx s1 h1]
+      simp only [t1]
+      cases hsub : lookupTok t (dispatch.getD idx default).subs with
+      | some j => rw [hsub] at hp; cases hp
+      | none =>
+        rw [hsub] at hp
+        simp only [hp]
+    | cons t2 rest2 =>
+      have e : pre ++ (kwText (t :: t2 :: rest2) ++ k) = pre ++ (t.str ++ ([' '] ++ (kwText (t2 :: rest2) ++ k))) := by
+        simp only [kwText, List.append_assoc, List.cons_append, List.nil_append]
+      rw [e] at hs
+      obtain ⟨lx, s1, h1, t1, _, b1⟩ := scanIW_piece s pre t.str _ t [] hpre hs.around
+        (scansAs_kw t _ (hkw t (by simp)) (WordEnd.blank _))
+      simp only [dispatchPath] at hp
+      cases hsub : lookupTok t (dispatch.getD idx default).subs with
+      | none => rw [hsub] at hp; cases hp
+      | some j =>
+        rw [hsub] at hp
+        obtain ⟨s', h2, b2⟩ := ih it j s1 [' '] k hp (fun x hx => hkw x (by simp [hx]))
+          (by simpa using hlen) Gap.blank hk b1
+        refine ⟨s', ?_, b2⟩
+        conv => lhs; unfold dispatchLoop
+        rw [P.run_bind _ _ s lx s1 h1]
+        simp only [t1, hsub]
+        exact h2
+
+/-- The same for `ParseStatement` (the loop has more rounds than the tree has levels). -/
+theorem parseStatement_print (fuel : Nat) (h : Handler) (toks : List Token) (s : PState) (pre k : Str)
+    (hp : dispatchPath 0 toks = some h) (hkw : ∀ t ∈ toks, t.isKw = true) (hlen : toks.length ≤ dispatch.length + 1)
+    (hpre : Gap pre) (hk : WordEnd k) (hs : s.Before (pre ++ (kwText toks ++ k))) :
+    ∃ s', (parseStatement fuel).run s = (runHandler fuel h).run s' ∧ s'.Before k :=
+  dispatch_print fuel h toks _ 0 s pre k hp hkw hlen hpre hk hs
+
+/-- The keyword paths of the families treated above: what is printed before the handler's part,
+the keywords it consists of, and the handler they select in the regenerated tree. -/
+def familyPaths : List (Str × List Token × Handler) :=
+  [(tx "SHOW CONTINUOUS QUERIES", [.SHOW, .CONTINUOUS, .QUERIES], .parseShowContinuousQueriesStatement),
+   (tx "SHOW DATABASES", [.SHOW, .DATABASES], .parseShowDatabasesStatement),
+   (tx "SHOW QUERIES", [.SHOW, .QUERIES], .parseShowQueriesStatement),
+   (tx "SHOW SHARD GROUPS", [.SHOW, .SHARD, .GROUPS], .parseShowShardGroupsStatement),
+   (tx "SHOW SHARDS", [.SHOW, .SHARDS], .parseShowShardsStatement),
+   (tx "SHOW SUBSCRIPTIONS", [.SHOW, .SUBSCRIPTIONS], .parseShowSubscriptionsStatement),
+   (tx "SHOW USERS", [.SHOW, .USERS], .parseShowUsersStatement),
+   (tx "DROP DATABASE", [.DROP, .DATABASE], .parseDropDatabaseStatement),
+   (tx "DROP MEASUREMENT", [.DROP, .MEASUREMENT], .parseDropMeasurementStatement),
+   (tx "DROP USER", [.DROP, .USER], .parseDropUserStatement),
+   (tx "SHOW GRANTS FOR", [.SHOW, .GRANTS, .FOR], .parseGrantsForUserStatement),
+   (tx "DROP RETENTION POLICY", [.DROP, .RETENTION, .POLICY], .parseDropRetentionPolicyStatement),
+   (tx "DROP CONTINUOUS QUERY", [.DROP, .CONTINUOUS, .QUERY], .parseDropContinuousQueryStatement),
+   (tx "SHOW RETENTION POLICIES", [.SHOW, .RETENTION, .POLICIES], .parseShowRetentionPoliciesStatement),
+   (tx "KILL QUERY", [.KILL, .QUERY], .parseKillQueryStatement),
+   (tx "DROP SHARD", [.DROP, .SHARD], .parseDropShardStatement),
+   (tx "DROP SUBSCRIPTION", [.DROP, .SUBSCRIPTION], .parseDropSubscriptionStatement),
+   (tx "CREATE USER", [.CREATE, .USER], .parseCreateUserStatement),
+   (tx "SET PASSWORD FOR", [.SET, .PASSWORD, .FOR], .parseSetPasswordUserStatement),
+   (tx "GRANT", [.GRANT], .parseGrantStatement),
+   (tx "REVOKE", [.REVOKE], .parseRevokeStatement),
+   (tx "CREATE RETENTION POLICY", [.CREATE, .RETENTION, .POLICY], .parseCreateRetentionPolicyStatement),
+   (tx "CREATE DATABASE", [.CREATE, .DATABASE], .parseCreateDatabaseStatement),
+   (tx "SHOW STATS", [.SHOW, .STATS], .parseShowStatsStatement),
+   (tx "SHOW DIAGNOSTICS", [.SHOW, .DIAGNOSTICS], .parseShowDiagnosticsStatement),
+   (tx "ALTER RETENTION POLICY", [.ALTER, .RETENTION, .POLICY], .parseAlterRetentionPolicyStatement)]
+
+/-- Obligation on the regenerated tables: every path above is printed as its keywords, consists of
+keywords of the scanner's table, and selects its handler from the root of the dispatch tree. -/
+theorem gen_familyPaths : ∀ p ∈ familyPaths,
+    p.1 = kwText p.2.1 ∧ (∀ t ∈ p.2.1, t.isKw = true) ∧ dispatchPath 0 p.2.1 = some p.2.2 ∧
+      p.2.1.length ≤ dispatch.length + 1 := by decide +kernel
+
+/-- **End to end, an instance:** `ParseStatement` on the whole printed text of
+`DROP RETENTION POLICY <name> ON <db>`, followed by `k`, returns that statement and stops before `k`. -/
+theorem dropRetentionPolicy_statement_print_parse (fuel : Nat) (s : PState) (name db k : Str)
+    (hex1 : Expressible name) (hex2 : Expressible db) (hk : IdentEnd db k)
+    (hs : s.Before ((Statement.dropRetentionPolicy name db).print ++ k)) :
+    ∃ s', (parseStatement fuel).run s = .ok (.dropRetentionPolicy name db, s') ∧ s'.Before k := by
+  rw [(nameOnDb_print name db).1] at hs
+  obtain ⟨hpr, hkw, hpath, hlen⟩ := gen_familyPaths (tx "DROP RETENTION POLICY", [.DROP, .RETENTION, .POLICY],
+    .parseDropRetentionPolicyStatement) (by simp [familyPaths])
+  simp only at hpr hkw hpath hlen
+  rw [hpr, List.append_assoc] at hs
+  obtain ⟨s1, h1, b1⟩ := parseStatement_print fuel _ _ s [] (nameOnDbText name db ++ k) hpath hkw hlen Gap.none
+    (WordEnd.blank _) hs
+  obtain ⟨s', h2, b2⟩ := nameOnDb_print_parse fuel .parseDropRetentionPolicyStatement .dropRetentionPolicy
+    (by simp [nameOnDbHandlers]) s1 name db k hex1 hex2 hk b1
+  exact ⟨s', by rw [h1]; exact h2, b2⟩
 
 /-! ## passwords -/
 
